@@ -1,4 +1,4 @@
-(* C11 — every step of a schedule that meets the environment assumptions preserves [ginv]. *)
+(* C11 — every step of a schedule that meets the environment assumption preserves [ginv]. *)
 From Coq Require Import Sorted.
 From Verif Require Import Base.Prelude Stream.Model Stream.Amap Stream.Lookup Stream.Inv.
 Local Open Scope N_scope.
@@ -9,1198 +9,1267 @@ Proof.
   constructor; [reflexivity|constructor].
 Qed.
 
-Section Preserve.
-  Variable gf : bool.
+(* ---------------------------------------------------------------- the live queue *)
 
-  (* ---------------------------------------------------------------- commit *)
+Lemma live_queue_app ep q1 q2 :
+  map snd (filter (fun gb : N * batch => N.eqb (fst gb) ep) (q1 ++ q2)) =
+  map snd (filter (fun gb => N.eqb (fst gb) ep) q1) ++ map snd (filter (fun gb => N.eqb (fst gb) ep) q2).
+Proof. rewrite filter_app, map_app. reflexivity. Qed.
 
-  Definition hist_commit (h : hist) (b : batch) : hist :=
-    Hist (b_idx b) (h_log h ++ [b]) (h_base h) (h_epoch h) (h_queue h ++ [b]).
+Lemma live_queue_none ep (q : list (N * batch)) :
+  Forall (fun gb => fst gb < ep) q -> map snd (filter (fun gb => N.eqb (fst gb) ep) q) = [].
+Proof.
+  induction 1 as [|gb q Hlt _ IH]; cbn [filter map]; [reflexivity|].
+  destruct (N.eqb (fst gb) ep) eqn:E; [apply N.eqb_eq in E; lia|exact IH].
+Qed.
 
-  Lemma tail_commit h T ob off b :
-    tail (hist_commit h b) T ob off = tail h T ob off ++ proj T [b].
-  Proof. unfold tail, hist_commit; cbn [h_queue]. rewrite proj_app, app_assoc. reflexivity. Qed.
+(* ---------------------------------------------------------------- commit *)
 
-  Lemma gt_single T b s : s < b_idx b -> Forall (fun it => s < item_idx it) (proj T [b]).
-  Proof.
-    intros Hlt. eapply Forall_impl; [|apply proj_single_idx]. cbn. intros it ->. exact Hlt.
-  Qed.
+Definition hist_commit (h : hist) (b : batch) : hist :=
+  Hist (b_idx b) (h_log h ++ [b]) (h_base h) (h_epoch h) (h_lq h ++ [b]).
 
-  Lemma core_commit h T view cidx A B1 B2 D s b :
-    h_hi h < b_idx b ->
-    core gf h T view cidx A B1 B2 D s ->
-    core gf (hist_commit h b) T view cidx A B1 B2 (D ++ proj T [b]) s.
-  Proof.
-    intros Hlt [Hsp Hv Hle Hgt Hi Hs Hg]. constructor; cbn [hist_commit h_log h_base h_hi]; auto.
-    - rewrite proj_app, Hsp, <- !app_assoc. reflexivity.
-    - rewrite Forall_app. split; [exact Hgt|]. apply gt_single. lia.
-    - lia.
-  Qed.
+Lemma live_queue_commit st b : live_queue (do_commit st b) = live_queue st ++ [b].
+Proof.
+  unfold live_queue. cbn [do_commit st_epoch st_queue].
+  rewrite live_queue_app. cbn [filter fst]. rewrite N.eqb_refl. reflexivity.
+Qed.
 
-  Lemma snapok_commit h T ob acc rest off A B2 D s b :
-    h_hi h < b_idx b ->
-    snapok gf h T ob acc rest off A B2 D s ->
-    snapok gf (hist_commit h b) T ob acc rest off A B2 (D ++ proj T [b]) s.
-  Proof.
-    intros Hlt [Hsp Hr Hv Ht Hle Hgt Hs Hg]. constructor; cbn [hist_commit h_log h_base h_hi]; auto.
-    - rewrite proj_app, Hsp, <- !app_assoc. reflexivity.
-    - rewrite tail_commit, Ht, <- app_assoc. reflexivity.
-    - rewrite Forall_app. split; [exact Hgt|]. apply gt_single. lia.
-    - lia.
-  Qed.
+Lemma hist_of_commit st b : hist_of (do_commit st b) = hist_commit (hist_of st) b.
+Proof. unfold hist_of, hist_commit. rewrite live_queue_commit. reflexivity. Qed.
 
-  Lemma knows_commit h r x b :
-    h_hi h < b_idx b -> knows gf h r x -> knows gf (hist_commit h b) r x.
-  Proof.
-    intros Hlt [Hz|[[He (A & B1 & B2 & D & s & Hc)]|Ho]].
-    - left; exact Hz.
-    - right; left. split; [exact He|]. exists A, B1, B2, (D ++ proj (c_ts x) [b]), s.
-      apply core_commit; assumption.
-    - right; right. exact Ho.
-  Qed.
+Lemma tail_commit h T ob off b :
+  tail (hist_commit h b) T ob off = tail h T ob off ++ proj T [b].
+Proof. unfold tail, hist_commit; cbn [h_lq]. rewrite proj_app, app_assoc. reflexivity. Qed.
 
-  Lemma cinv_commit h ob r x b :
-    h_hi h < b_idx b -> cinv gf h ob r x -> cinv gf (hist_commit h b) ob r x.
-  Proof.
-    intros Hlt (Hi & Hep & Hz & Hs & Hk & Hsub). unfold cinv. cbn [hist_commit h_hi h_epoch].
-    split; [lia|]. split; [exact Hep|]. split; [exact Hz|]. split; [exact Hs|].
-    split; [apply knows_commit; assumption|].
-    destruct (c_sub x) as [sb|]; [|exact I]. destruct (s_status sb); try exact I.
-    destruct Hsub as [Hl Hsub]. split; [exact Hl|]. destruct Hsub as [Hst|Hsn].
-    - left. destruct Hst as (Hp & Hh & He & A & B1 & B2 & D & s & Hc & Ht).
-      split; [exact Hp|]. split; [exact Hh|]. split; [exact He|].
-      exists A, B1, B2, (D ++ proj (c_ts x) [b]), s. split; [apply core_commit; assumption|].
-      rewrite tail_commit, Ht, <- app_assoc. reflexivity.
-    - right. destruct Hsn as (acc & rest & A & B2 & D & s & Hh & Hso).
-      exists acc, rest, A, B2, (D ++ proj (c_ts x) [b]), s. split; [exact Hh|].
-      apply snapok_commit; assumption.
-  Qed.
+Lemma gt_single T b s : s < b_idx b -> Forall (fun it => s < item_idx it) (proj T [b]).
+Proof.
+  intros Hlt. eapply Forall_impl; [|apply proj_single_idx]. cbn. intros it ->. exact Hlt.
+Qed.
 
-  Lemma cacheinv_commit h T ob sn b :
-    h_hi h < b_idx b -> cacheinv gf h T ob sn -> cacheinv gf (hist_commit h b) T ob sn.
-  Proof.
-    intros Hlt (Hl & body & A & B2 & D & s & Hit & Hso). split; [exact Hl|].
-    exists body, A, B2, (D ++ proj T [b]), s. split; [exact Hit|]. apply snapok_commit; assumption.
-  Qed.
+Lemma core_commit h T view cidx A D b :
+  h_hi h < b_idx b ->
+  core h T view cidx A D -> core (hist_commit h b) T view cidx A (D ++ proj T [b]).
+Proof.
+  intros Hlt [Hsp Hv Hle Hgt Hs]. constructor; cbn [hist_commit h_log h_base h_hi]; auto.
+  - rewrite proj_app, Hsp, <- !app_assoc. reflexivity.
+  - rewrite Forall_app. split; [exact Hgt|]. apply gt_single. lia.
+  - lia.
+Qed.
 
-  Lemma ginv_commit st b :
-    ginv gf st -> N.ltb (st_hi st) (b_idx b) = true -> b_silent b = [] -> ginv gf (do_commit st b).
-  Proof.
-    intros G Hlt Hsil. apply N.ltb_lt in Hlt. destruct G as [Gnd Gst Glok Ginc Ghi Gh Gr Gc Gn].
-    destruct Gh as (pub & r & Hlog & Hr & Hall & Hbuf & Hcl).
-    constructor; cbn [do_commit st_store st_log st_base st_hi st_queue st_bufs st_clients st_cache st_epoch].
-    - apply nodup_apply, Gnd.
-    - intros k. unfold all_evs. rewrite flat_map_app. cbn [flat_map]. rewrite app_nil_r.
-      rewrite (apply_app _ (b_evs b ++ b_silent b)). apply (meq_apply _ _ _ Gst k).
-    - apply Forall_app. split; [exact Glok|]. constructor; [exact Hsil|constructor].
-    - rewrite map_app. apply incr_app; [exact Ginc|repeat constructor|].
-      intros u y Hu [<-|[]]. apply in_map_iff in Hu as (b0 & <- & Hb0).
-      rewrite Forall_forall in Hall. specialize (Hall _ Hb0). lia.
-    - lia.
-    - exists pub, r. split; [rewrite Hlog, app_assoc; reflexivity|]. split; [lia|]. split.
-      + apply Forall_app. split.
-        * eapply Forall_impl; [|exact Hall]. cbn. intros; lia.
-        * constructor; [lia|constructor].
-      + split; [exact Hbuf|]. intros c x Hf.
-        change (hist_of (do_commit st b)) with (hist_commit (hist_of st) b).
-        apply cinv_commit; [exact Hlt|]. exact (Hcl c x Hf).
-    - exact Gr.
-    - intros T sn Hf. change (hist_of (do_commit st b)) with (hist_commit (hist_of st) b).
-      apply cacheinv_commit; [exact Hlt|]. apply Gc, Hf.
-    - exact Gn.
-  Qed.
+Lemma snapok_commit h T ob acc rest off A B2 D s b :
+  h_hi h < b_idx b ->
+  snapok h T ob acc rest off A B2 D s ->
+  snapok (hist_commit h b) T ob acc rest off A B2 (D ++ proj T [b]) s.
+Proof.
+  intros Hlt [Hsp Hr Hv Ht Hle Hgt Hs]. constructor; cbn [hist_commit h_log h_base h_hi]; auto.
+  - rewrite proj_app, Hsp, <- !app_assoc. reflexivity.
+  - rewrite tail_commit, Ht, <- app_assoc. reflexivity.
+  - rewrite Forall_app. split; [exact Hgt|]. apply gt_single. lia.
+  - lia.
+Qed.
 
-  (* ---------------------------------------------------------------- transport along equal histories *)
+Lemma knows_commit h r x b :
+  h_hi h < b_idx b -> knows h r x -> knows (hist_commit h b) r x.
+Proof.
+  intros Hlt [Hz|[[He (A & D & Hc)]|Ho]].
+  - left; exact Hz.
+  - right; left. split; [exact He|]. exists A, (D ++ proj (c_ts x) [b]). apply core_commit; assumption.
+  - right; right. exact Ho.
+Qed.
 
-  Lemma core_ext h h' T view cidx A B1 B2 D s :
-    h_log h' = h_log h -> h_base h' = h_base h -> h_hi h' = h_hi h ->
-    core gf h T view cidx A B1 B2 D s -> core gf h' T view cidx A B1 B2 D s.
-  Proof.
-    intros El Eb Eh [Hsp Hv Hle Hgt Hi Hs Hg]. constructor; rewrite ?El, ?Eb, ?Eh; auto.
-  Qed.
+Lemma cinv_commit h ob r x b :
+  h_hi h < b_idx b -> cinv h ob r x -> cinv (hist_commit h b) ob r x.
+Proof.
+  intros Hlt (Hi & Hep & Hz & Hs & Hk & Hsub). unfold cinv. cbn [hist_commit h_hi h_epoch].
+  split; [lia|]. split; [exact Hep|]. split; [exact Hz|]. split; [exact Hs|].
+  split; [apply knows_commit; assumption|].
+  destruct (c_sub x) as [sb|]; [|exact I]. destruct (s_status sb); try exact I.
+  destruct Hsub as [Hl Hsub]. split; [exact Hl|]. destruct Hsub as [Hst|Hsn].
+  - left. destruct Hst as (Hp & Hh & He & Hsn & A & D & R & Hc & Ht & HR).
+    split; [exact Hp|]. split; [exact Hh|]. split; [exact He|]. split; [exact Hsn|].
+    exists A, (D ++ proj (c_ts x) [b]), R. split; [apply core_commit; assumption|]. split; [|exact HR].
+    rewrite tail_commit, Ht, <- app_assoc. reflexivity.
+  - right. destruct Hsn as (Hs0 & acc & rest & A & B2 & D & s & Hh & Hso). split; [exact Hs0|].
+    exists acc, rest, A, B2, (D ++ proj (c_ts x) [b]), s. split; [exact Hh|].
+    apply snapok_commit; assumption.
+Qed.
 
-  Lemma knows_ext h h' r x :
-    h_log h' = h_log h -> h_base h' = h_base h -> h_hi h' = h_hi h -> h_epoch h' = h_epoch h ->
-    knows gf h r x -> knows gf h' r x.
-  Proof.
-    intros El Eb Eh Ee [Hz|[[He (A & B1 & B2 & D & s & Hc)]|Ho]].
-    - left; exact Hz.
-    - right; left. rewrite Ee. split; [exact He|]. exists A, B1, B2, D, s. eapply core_ext; eauto.
-    - right; right. rewrite Ee. exact Ho.
-  Qed.
+Lemma cacheinv_commit h T ob sn b :
+  h_hi h < b_idx b -> cacheinv h T ob sn -> cacheinv (hist_commit h b) T ob sn.
+Proof.
+  intros Hlt (Hl & body & A & B2 & D & s & Hit & Hso). split; [exact Hl|].
+  exists body, A, B2, (D ++ proj T [b]), s. split; [exact Hit|]. apply snapok_commit; assumption.
+Qed.
 
-  Lemma snapok_ext h h' T ob ob' acc rest off A B2 D s :
-    h_log h' = h_log h -> h_base h' = h_base h -> h_hi h' = h_hi h ->
-    tail h' T ob' off = tail h T ob off ->
-    snapok gf h T ob acc rest off A B2 D s -> snapok gf h' T ob' acc rest off A B2 D s.
-  Proof.
-    intros El Eb Eh Et [Hsp Hr Hv Ht Hle Hgt Hs Hg]. constructor; rewrite ?El, ?Eb, ?Eh, ?Et; auto.
-  Qed.
+Lemma ginv_commit st b :
+  ginv st -> N.ltb (st_hi st) (b_idx b) = true -> ginv (do_commit st b).
+Proof.
+  intros G Hlt. apply N.ltb_lt in Hlt. destruct G as [Gnd Gst Ginc Ghi Gq Gh Gr Gi Gc Gn].
+  destruct Gh as (pub & r & Hlog & Hr & Hall & Hbuf & Hcl).
+  constructor; rewrite ?hist_of_commit;
+    cbn [do_commit st_store st_log st_base st_hi st_queue st_bufs st_clients st_cache st_epoch st_nbuf].
+  - apply nodup_apply, Gnd.
+  - intros k. unfold all_evs. rewrite flat_map_app. cbn [flat_map]. rewrite app_nil_r.
+    rewrite (apply_app _ (b_evs b)). apply (meq_apply _ _ _ Gst k).
+  - rewrite map_app. apply incr_app; [exact Ginc|repeat constructor|].
+    intros u y Hu [<-|[]]. apply in_map_iff in Hu as (b0 & <- & Hb0).
+    rewrite Forall_forall in Hall. specialize (Hall _ Hb0). lia.
+  - lia.
+  - apply Forall_app. split; [exact Gq|]. constructor; [cbn; lia|constructor].
+  - exists pub, r. split.
+    { rewrite live_queue_commit, Hlog, app_assoc. reflexivity. }
+    split; [lia|]. split.
+    + apply Forall_app. split.
+      * eapply Forall_impl; [|exact Hall]. cbn. intros; lia.
+      * constructor; [lia|constructor].
+    + split; [exact Hbuf|]. intros c x Hf. apply cinv_commit; [exact Hlt|]. exact (Hcl c x Hf).
+  - exact Gr.
+  - exact Gi.
+  - intros T sn Hf. apply cacheinv_commit; [exact Hlt|]. apply Gc, Hf.
+  - exact Gn.
+Qed.
 
-  (* the same client under a history with equal log/base/hi/epoch and an equal tail *)
-  Lemma cinv_ext h h' ob ob' r x :
-    h_log h' = h_log h -> h_base h' = h_base h -> h_hi h' = h_hi h -> h_epoch h' = h_epoch h ->
-    (forall sb, c_sub x = Some sb -> s_status sb = Open -> buf_live ob (s_off sb) ->
-                buf_live ob' (s_off sb) /\ tail h' (c_ts x) ob' (s_off sb) = tail h (c_ts x) ob (s_off sb)) ->
-    cinv gf h ob r x -> cinv gf h' ob' r x.
-  Proof.
-    intros El Eb Eh Ee Hsb (Hi & Hep & Hz & Hs & Hk & Hsub). unfold cinv. rewrite Eh, Ee.
-    split; [exact Hi|]. split; [exact Hep|]. split; [exact Hz|]. split; [exact Hs|].
-    split; [eapply knows_ext; eauto|].
-    destruct (c_sub x) as [sb|] eqn:Es; [|exact I]. destruct (s_status sb) eqn:Est; try exact I.
-    destruct Hsub as [Hl Hsub]. destruct (Hsb sb eq_refl Est Hl) as [Hl' Ht]. split; [exact Hl'|].
-    destruct Hsub as [Hst|Hsn].
-    - left. destruct Hst as (Hp & Hh & He & A & B1 & B2 & D & s & Hc & Htl).
-      split; [exact Hp|]. split; [exact Hh|]. rewrite Ee. split; [exact He|].
-      exists A, B1, B2, D, s. split; [eapply core_ext; eauto|]. rewrite Ht. exact Htl.
-    - right. destruct Hsn as (acc & rest & A & B2 & D & s & Hh & Hso).
-      exists acc, rest, A, B2, D, s. split; [exact Hh|]. eapply snapok_ext; eauto.
-  Qed.
+(* ---------------------------------------------------------------- transport along equal histories *)
 
-  Lemma cacheinv_ext h h' T ob ob' sn :
-    h_log h' = h_log h -> h_base h' = h_base h -> h_hi h' = h_hi h ->
-    (buf_live ob (sn_off sn) ->
-     buf_live ob' (sn_off sn) /\ tail h' T ob' (sn_off sn) = tail h T ob (sn_off sn)) ->
-    cacheinv gf h T ob sn -> cacheinv gf h' T ob' sn.
-  Proof.
-    intros El Eb Eh Hb (Hl & body & A & B2 & D & s & Hit & Hso). destruct (Hb Hl) as [Hl' Ht].
-    split; [exact Hl'|]. exists body, A, B2, D, s. split; [exact Hit|]. eapply snapok_ext; eauto.
-  Qed.
+Lemma core_ext h h' T view cidx A D :
+  h_log h' = h_log h -> h_base h' = h_base h -> h_hi h' = h_hi h ->
+  core h T view cidx A D -> core h' T view cidx A D.
+Proof.
+  intros El Eb Eh [Hsp Hv Hle Hgt Hs]. constructor; rewrite ?El, ?Eb, ?Eh; auto.
+Qed.
 
-  (* a closed or absent subscription asks nothing of the buffer *)
-  Lemma cinv_nosub h ob ob' r x :
-    (match c_sub x with Some sb => s_status sb <> Open | None => True end) ->
-    cinv gf h ob r x -> cinv gf h ob' r x.
-  Proof.
-    intros Hc (Hi & Hep & Hz & Hs & Hk & Hsub). unfold cinv.
-    split; [exact Hi|]. split; [exact Hep|]. split; [exact Hz|]. split; [exact Hs|]. split; [exact Hk|].
-    destruct (c_sub x) as [sb|]; [|exact I]. destruct (s_status sb); try exact I. congruence.
-  Qed.
+Lemma knows_ext h h' r x :
+  h_log h' = h_log h -> h_base h' = h_base h -> h_hi h' = h_hi h -> h_epoch h' = h_epoch h ->
+  knows h r x -> knows h' r x.
+Proof.
+  intros El Eb Eh Ee [Hz|[[He (A & D & Hc)]|Ho]].
+  - left; exact Hz.
+  - right; left. rewrite Ee. split; [exact He|]. exists A, D. eapply core_ext; eauto.
+  - right; right. rewrite Ee. exact Ho.
+Qed.
 
-  (* ---------------------------------------------------------------- publish *)
+Lemma snapok_ext h h' T ob ob' acc rest off A B2 D s :
+  h_log h' = h_log h -> h_base h' = h_base h -> h_hi h' = h_hi h ->
+  tail h' T ob' off = tail h T ob off ->
+  snapok h T ob acc rest off A B2 D s -> snapok h' T ob' acc rest off A B2 D s.
+Proof.
+  intros El Eb Eh Et [Hsp Hr Hv Ht Hle Hgt Hs]. constructor; rewrite ?El, ?Eb, ?Eh, ?Et; auto.
+Qed.
 
-  Lemma publish_items T tb b : tb_ts tb = T -> tb_items (publish_buf b tb) = tb_items tb ++ proj T [b].
-  Proof.
-    intros <-. unfold publish_buf. cbn [proj flat_map].
-    destruct (evs_for (tb_ts tb) (b_evs b)); cbn [tb_items app]; [rewrite app_nil_r|]; reflexivity.
-  Qed.
+(* the same client under a history with equal log/base/hi/epoch and an equal tail *)
+Lemma cinv_ext h h' ob ob' r x :
+  h_log h' = h_log h -> h_base h' = h_base h -> h_hi h' = h_hi h -> h_epoch h' = h_epoch h ->
+  (forall sb, c_sub x = Some sb -> s_status sb = Open -> buf_live ob (s_off sb) (Some (s_buf sb)) ->
+              buf_live ob' (s_off sb) (Some (s_buf sb)) /\
+              tail h' (c_ts x) ob' (s_off sb) = tail h (c_ts x) ob (s_off sb)) ->
+  cinv h ob r x -> cinv h' ob' r x.
+Proof.
+  intros El Eb Eh Ee Hsb (Hi & Hep & Hz & Hs & Hk & Hsub). unfold cinv. rewrite Eh, Ee.
+  split; [exact Hi|]. split; [exact Hep|]. split; [exact Hz|]. split; [exact Hs|].
+  split; [eapply knows_ext; eauto|].
+  destruct (c_sub x) as [sb|] eqn:Es; [|exact I]. destruct (s_status sb) eqn:Est; try exact I.
+  destruct Hsub as [Hl Hsub]. destruct (Hsb sb eq_refl Est Hl) as [Hl' Ht]. split; [exact Hl'|].
+  destruct Hsub as [Hst|Hsn].
+  - left. destruct Hst as (Hp & Hh & He & Hsn & A & D & R & Hc & Htl & HR).
+    split; [exact Hp|]. split; [exact Hh|]. rewrite Ee. split; [exact He|]. split; [exact Hsn|].
+    exists A, D, R. split; [eapply core_ext; eauto|]. split; [|exact HR]. rewrite Ht. exact Htl.
+  - right. destruct Hsn as (Hs0 & acc & rest & A & B2 & D & s & Hh & Hso). split; [exact Hs0|].
+    exists acc, rest, A, B2, D, s. split; [exact Hh|]. eapply snapok_ext; eauto.
+Qed.
 
-  Lemma publish_ts b tb : tb_ts (publish_buf b tb) = tb_ts tb.
-  Proof. unfold publish_buf. destruct (evs_for (tb_ts tb) (b_evs b)); reflexivity. Qed.
+Lemma cacheinv_ext h h' T ob ob' sn :
+  h_log h' = h_log h -> h_base h' = h_base h -> h_hi h' = h_hi h ->
+  (buf_live ob (sn_off sn) None ->
+   buf_live ob' (sn_off sn) None /\ tail h' T ob' (sn_off sn) = tail h T ob (sn_off sn)) ->
+  cacheinv h T ob sn -> cacheinv h' T ob' sn.
+Proof.
+  intros El Eb Eh Hb (Hl & body & A & B2 & D & s & Hit & Hso). destruct (Hb Hl) as [Hl' Ht].
+  split; [exact Hl'|]. exists body, A, B2, D, s. split; [exact Hit|]. eapply snapok_ext; eauto.
+Qed.
 
-  Lemma publish_old b tb : tb_old (publish_buf b tb) = tb_old tb.
-  Proof. unfold publish_buf. destruct (evs_for (tb_ts tb) (b_evs b)); reflexivity. Qed.
+(* dropping or closing the subscription only weakens what is asked of the client *)
+Lemma cinv_weaken h ob ob' r x x' :
+  c_ts x' = c_ts x -> c_view x' = c_view x -> c_idx x' = c_idx x -> c_h x' = c_h x ->
+  c_epoch x' = c_epoch x ->
+  match c_sub x' with Some sb => s_status sb <> Open | None => True end ->
+  cinv h ob r x -> cinv h ob' r x'.
+Proof.
+  intros Et Ev Ei Eh Ee Hs (Hi & Hep & Hz & Hsn & Hk & Hsub). unfold cinv, knows in *.
+  rewrite Et, Ev, Ei, Eh, Ee. split; [exact Hi|]. split; [exact Hep|]. split; [exact Hz|].
+  split; [exact Hsn|]. split; [exact Hk|].
+  destruct (c_sub x') as [sb|]; [|exact I]. destruct (s_status sb); try exact I. congruence.
+Qed.
 
-  Lemma publish_refs b tb : tb_refs (publish_buf b tb) = tb_refs tb.
-  Proof. unfold publish_buf. destruct (evs_for (tb_ts tb) (b_evs b)); reflexivity. Qed.
+Lemma cinv_nosub h ob ob' r x :
+  (match c_sub x with Some sb => s_status sb <> Open | None => True end) ->
+  cinv h ob r x -> cinv h ob' r x.
+Proof. intros Hc. apply cinv_weaken; auto. Qed.
 
-  Definition hist_pub (h : hist) (q : list batch) : hist :=
-    Hist (h_hi h) (h_log h) (h_base h) (h_epoch h) q.
+Lemma live_same h T ob ob' off id tb tb' :
+  ob = Some tb -> ob' = Some tb' -> tb_items tb' = tb_items tb -> tb_id tb' = tb_id tb ->
+  buf_live ob off id -> buf_live ob' off id /\ tail h T ob' off = tail h T ob off.
+Proof.
+  intros -> -> Ei Eo (tb0 & E & Hoff & Hid). injection E as <-. split.
+  - exists tb'. rewrite Ei, Eo. auto.
+  - unfold tail. cbn [ob_items]. rewrite Ei. reflexivity.
+Qed.
 
-  Lemma live_publish T ob off b q h :
-    (forall tb, ob = Some tb -> tb_ts tb = T) -> h_queue h = b :: q ->
-    buf_live ob off ->
-    buf_live (option_map (publish_buf b) ob) off /\
-    tail (hist_pub h q) T (option_map (publish_buf b) ob) off = tail h T ob off.
-  Proof.
-    intros Hts Hq (tb & -> & Hold & Hoff). specialize (Hts tb eq_refl). cbn [option_map]. split.
-    - exists (publish_buf b tb). split; [reflexivity|]. rewrite publish_old. split; [exact Hold|].
-      rewrite (publish_items T) by exact Hts. rewrite app_length. lia.
-    - unfold tail. cbn [hist_pub h_queue ob_items]. rewrite Hq, (publish_items T) by exact Hts.
-      rewrite skipn_app_le by exact Hoff. change (b :: q) with ([b] ++ q). rewrite proj_app, app_assoc. reflexivity.
-  Qed.
+(* ---------------------------------------------------------------- publish *)
 
-  Lemma close_acl_sub toks x :
-    c_ts (close_sub_acl toks x) = c_ts x /\ c_view (close_sub_acl toks x) = c_view x /\
-    c_idx (close_sub_acl toks x) = c_idx x /\ c_h (close_sub_acl toks x) = c_h x /\
-    c_epoch (close_sub_acl toks x) = c_epoch x /\
-    (c_sub (close_sub_acl toks x) = c_sub x \/
-     exists sb, c_sub x = Some sb /\ c_sub (close_sub_acl toks x) = Some (Sub AclClosed (s_pre sb) (s_off sb))).
-  Proof.
-    unfold close_sub_acl. destruct (c_sub x) as [sb|] eqn:Es; [|rewrite Es; auto 10].
-    destruct (s_status sb); try (rewrite Es; auto 10).
-    destruct (existsb _ toks); cbn; [|rewrite Es; auto 10].
-    repeat split; auto. right. exists sb. auto.
-  Qed.
+Lemma publish_items T tb b : tb_ts tb = T -> tb_items (publish_buf b tb) = tb_items tb ++ proj T [b].
+Proof.
+  intros <-. unfold publish_buf. cbn [proj flat_map].
+  destruct (evs_for (tb_ts tb) (b_evs b)); cbn [tb_items app]; [rewrite app_nil_r|]; reflexivity.
+Qed.
 
-  Lemma has_sub_close_acl T toks x : has_sub_on T (close_sub_acl toks x) = has_sub_on T x.
-  Proof.
-    unfold has_sub_on. destruct (close_acl_sub toks x) as (Et & _ & _ & _ & _ & [Es|(sb & Es & Es')]).
-    - rewrite Es, Et. reflexivity.
-    - rewrite Es, Es', Et. reflexivity.
-  Qed.
+Lemma publish_ts b tb : tb_ts (publish_buf b tb) = tb_ts tb.
+Proof. unfold publish_buf. destruct (evs_for (tb_ts tb) (b_evs b)); reflexivity. Qed.
 
-  (* closing a subscription only weakens what is asked of the client *)
-  Lemma cinv_close h ob r x x' :
-    c_ts x' = c_ts x -> c_view x' = c_view x -> c_idx x' = c_idx x -> c_h x' = c_h x ->
-    c_epoch x' = c_epoch x ->
-    (c_sub x' = c_sub x \/ exists sb st', c_sub x' = Some sb /\ s_status sb = st' /\ st' <> Open) ->
-    cinv gf h ob r x -> cinv gf h ob r x'.
-  Proof.
-    intros Et Ev Ei Eh Ee Hs (Hi & Hep & Hz & Hsn & Hk & Hsub). unfold cinv, knows in *.
-    rewrite Et, Ev, Ei, Eh, Ee. split; [exact Hi|]. split; [exact Hep|]. split; [exact Hz|].
+Lemma publish_id b tb : tb_id (publish_buf b tb) = tb_id tb.
+Proof. unfold publish_buf. destruct (evs_for (tb_ts tb) (b_evs b)); reflexivity. Qed.
+
+Lemma publish_refs b tb : tb_refs (publish_buf b tb) = tb_refs tb.
+Proof. unfold publish_buf. destruct (evs_for (tb_ts tb) (b_evs b)); reflexivity. Qed.
+
+Definition hist_pub (h : hist) (q : list batch) : hist :=
+  Hist (h_hi h) (h_log h) (h_base h) (h_epoch h) q.
+
+Lemma live_publish T ob off id b q h :
+  (forall tb, ob = Some tb -> tb_ts tb = T) -> h_lq h = b :: q ->
+  buf_live ob off id ->
+  buf_live (option_map (publish_buf b) ob) off id /\
+  tail (hist_pub h q) T (option_map (publish_buf b) ob) off = tail h T ob off.
+Proof.
+  intros Hts Hq (tb & -> & Hoff & Hid). specialize (Hts tb eq_refl). cbn [option_map]. split.
+  - exists (publish_buf b tb). split; [reflexivity|]. rewrite publish_id. split; [|exact Hid].
+    rewrite (publish_items T) by exact Hts. rewrite app_length. lia.
+  - unfold tail. cbn [hist_pub h_lq ob_items]. rewrite Hq, (publish_items T) by exact Hts.
+    rewrite skipn_app_le by exact Hoff. change (b :: q) with ([b] ++ q). rewrite proj_app, app_assoc. reflexivity.
+Qed.
+
+Lemma close_acl_sub toks x :
+  c_ts (close_sub_acl toks x) = c_ts x /\ c_view (close_sub_acl toks x) = c_view x /\
+  c_idx (close_sub_acl toks x) = c_idx x /\ c_h (close_sub_acl toks x) = c_h x /\
+  c_epoch (close_sub_acl toks x) = c_epoch x /\
+  (c_sub (close_sub_acl toks x) = c_sub x \/
+   exists sb, c_sub x = Some sb /\
+              c_sub (close_sub_acl toks x) = Some (Sub AclClosed (s_pre sb) (s_off sb) (s_buf sb) (s_snap sb))).
+Proof.
+  unfold close_sub_acl. destruct (c_sub x) as [sb|] eqn:Es; [|rewrite Es; auto 10].
+  destruct (s_status sb); try (rewrite Es; auto 10).
+  destruct (existsb _ toks); cbn; [|rewrite Es; auto 10].
+  repeat split; auto. right. exists sb. auto.
+Qed.
+
+Lemma has_sub_close_acl T id toks x : has_sub_on T id (close_sub_acl toks x) = has_sub_on T id x.
+Proof.
+  unfold has_sub_on. destruct (close_acl_sub toks x) as (Et & _ & _ & _ & _ & [Es|(sb & Es & Es')]).
+  - rewrite Es, Et. reflexivity.
+  - rewrite Es, Es', Et. reflexivity.
+Qed.
+
+(* closing a subscription, or leaving it as it is *)
+Lemma cinv_close h ob r x x' :
+  c_ts x' = c_ts x -> c_view x' = c_view x -> c_idx x' = c_idx x -> c_h x' = c_h x ->
+  c_epoch x' = c_epoch x ->
+  (c_sub x' = c_sub x \/ exists sb, c_sub x' = Some sb /\ s_status sb <> Open) ->
+  cinv h ob r x -> cinv h ob r x'.
+Proof.
+  intros Et Ev Ei Eh Ee [Hs|(sb & Hs & Hne)] Hc.
+  - destruct Hc as (Hi & Hep & Hz & Hsn & Hk & Hsub). unfold cinv, knows in *.
+    rewrite Et, Ev, Ei, Eh, Ee, Hs. split; [exact Hi|]. split; [exact Hep|]. split; [exact Hz|].
     split; [exact Hsn|]. split; [exact Hk|].
-    destruct Hs as [->|(sb & st' & -> & Hst & Hne)].
-    - destruct (c_sub x) as [sb|]; [|exact I]. destruct (s_status sb); try exact I.
-      unfold subinv in *. rewrite Et, Ev, Ei, Eh, Ee. exact Hsub.
-    - rewrite Hst. destruct st'; try exact I. congruence.
-  Qed.
+    destruct (c_sub x) as [sb|]; [|exact I]. destruct (s_status sb); try exact I.
+    unfold subinv in *. rewrite Et, Ev, Ei, Eh, Ee. exact Hsub.
+  - eapply cinv_weaken; eauto. rewrite Hs. exact Hne.
+Qed.
 
-  Lemma ginv_publish st : ginv gf st -> ginv gf (fst (do_publish st)).
-  Proof.
-    intros G. unfold do_publish. destruct (st_queue st) as [|b q] eqn:Eq; [exact G|]. cbn [fst].
-    destruct G as [Gnd Gst Glok Ginc Ghi Gh Gr Gc Gn].
-    destruct Gh as (pub & r & Hlog & Hr & Hall & Hbuf & Hcl).
-    constructor; cbn [st_store st_log st_base st_hi st_queue st_bufs st_clients st_cache st_epoch]; auto.
-    - exists (pub ++ [b]), r. rewrite Eq in Hlog. split; [rewrite Hlog, <- app_assoc; reflexivity|].
+Lemma ginv_publish st : ginv st -> ginv (fst (do_publish st)).
+Proof.
+  intros G. unfold do_publish. destruct (st_queue st) as [|[g b] q] eqn:Eq; [exact G|].
+  destruct G as [Gnd Gst Ginc Ghi Gq Gh Gr Gi Gc Gn].
+  destruct Gh as (pub & r & Hlog & Hr & Hall & Hbuf & Hcl).
+  rewrite Eq in Gq. apply Forall_cons_iff in Gq as [Hg Gq']. cbn [fst] in Hg.
+  destruct (N.eqb g (st_epoch st)) eqn:Eg; cbn [fst].
+  - (* the batch belongs to the current generation: it is published *)
+    apply N.eqb_eq in Eg. subst g.
+    assert (Hlq : live_queue st = b :: map snd (filter (fun gb => N.eqb (fst gb) (st_epoch st)) q)).
+    { unfold live_queue. rewrite Eq. cbn [filter fst]. rewrite N.eqb_refl. reflexivity. }
+    set (q' := map snd (filter (fun gb => N.eqb (fst gb) (st_epoch st)) q)) in *.
+    assert (Hh : forall st', st_hi st' = st_hi st -> st_log st' = st_log st -> st_base st' = st_base st ->
+                             st_epoch st' = st_epoch st -> st_queue st' = q ->
+                             hist_of st' = hist_pub (hist_of st) q').
+    { intros st' E1 E2 E3 E4 E5. unfold hist_of, hist_pub, live_queue. rewrite E1, E2, E3, E4, E5. reflexivity. }
+    constructor; rewrite ?(Hh _ eq_refl eq_refl eq_refl eq_refl eq_refl);
+      cbn [st_store st_log st_base st_hi st_queue st_bufs st_clients st_cache st_epoch st_nbuf]; auto.
+    + exists (pub ++ [b]), r. split.
+      { unfold live_queue. cbn [st_queue st_epoch]. fold q'. rewrite Hlog, Hlq, <- app_assoc. reflexivity. }
       split; [exact Hr|]. split; [exact Hall|]. split.
-      + intros T tb' Hf Hold. rewrite find_buf_map in Hf by apply publish_ts.
+      * intros T tb' Hf. rewrite find_buf_map in Hf by apply publish_ts.
         destruct (find_buf T (st_bufs st)) as [tb|] eqn:Ef; [|discriminate]. injection Hf as <-.
-        rewrite publish_old in Hold. destruct (Hbuf T tb Ef Hold) as [X HX].
+        destruct (Hbuf T tb Ef) as [X HX].
         exists X. rewrite proj_app, HX, (publish_items T) by (eapply find_buf_ts; eauto).
         rewrite app_assoc. reflexivity.
-      + intros c x' Hf. rewrite find_client_map in Hf.
+      * intros c x' Hf. rewrite find_client_map in Hf.
         destruct (find_client c (st_clients st)) as [x|] eqn:Ec; [|discriminate]. injection Hf as <-.
         specialize (Hcl c x Ec). destruct (close_acl_sub (b_close b) x) as (Et & Ev & Ei & Eh & Ee & Hs).
         rewrite Et, find_buf_map by apply publish_ts.
-        change (hist_of _) with (hist_pub (hist_of st) q).
         eapply cinv_close with (x := x); auto.
-        * destruct Hs as [Hs|(sb & Hs & Hs')]; [left; exact Hs|]. right. exists (Sub AclClosed (s_pre sb) (s_off sb)), AclClosed.
-          split; [exact Hs'|]. split; [reflexivity|discriminate].
-        * eapply (cinv_ext (hist_of st)); [reflexivity|reflexivity|reflexivity|reflexivity| |exact Hcl].
-          intros sb _ _ Hl. eapply live_publish; [|exact Eq|exact Hl].
-          intros tb Hf. eapply find_buf_ts; eauto.
-    - intros T. rewrite find_buf_map by apply publish_ts. specialize (Gr T).
-      rewrite count_map by (intros; apply has_sub_close_acl).
-      destruct (find_buf T (st_bufs st)); cbn [option_map]; [rewrite publish_refs|]; exact Gr.
-    - intros T sn Hf. specialize (Gc T sn Hf). rewrite find_buf_map by apply publish_ts.
-      change (hist_of _) with (hist_pub (hist_of st) q).
-      eapply (cacheinv_ext (hist_of st)); [reflexivity|reflexivity|reflexivity| |exact Gc].
-      intros Hl. eapply live_publish; [|exact Eq|exact Hl]. intros tb Hf'. eapply find_buf_ts; eauto.
-    - rewrite map_fst_map. exact Gn.
-  Qed.
-
-  (* ---------------------------------------------------------------- evict *)
-
-  Lemma ginv_evict st T : ginv gf st -> ginv gf (do_evict st T).
-  Proof.
-    intros [Gnd Gst Glok Ginc Ghi Gh Gr Gc Gn].
-    constructor; cbn [do_evict st_store st_log st_base st_hi st_queue st_bufs st_clients st_cache st_epoch]; auto.
-    intros T' sn Hf. destruct (ts_eqb T' T) eqn:E.
-    - apply ts_eqb_eq in E; subst T'. rewrite find_del_snap_same in Hf. discriminate.
-    - apply ts_eqb_neq in E. rewrite find_del_snap_other in Hf by exact E. apply Gc, Hf.
-  Qed.
-
-  (* ---------------------------------------------------------------- restore *)
-
-  Lemma force_close_fields x :
-    c_ts (force_close x) = c_ts x /\ c_view (force_close x) = c_view x /\
-    c_idx (force_close x) = c_idx x /\ c_h (force_close x) = c_h x /\
-    c_epoch (force_close x) = c_epoch x /\
-    match c_sub (force_close x) with
-    | Some sb => s_status sb <> Open /\ exists sb0, c_sub x = Some sb0
-    | None => c_sub x = None
-    end.
-  Proof.
-    unfold force_close. destruct (c_sub x) as [sb|] eqn:Es; [|rewrite Es; auto 10].
-    destruct (s_status sb) eqn:Est; cbn; rewrite ?Es; repeat split; auto; try congruence; eauto.
-  Qed.
-
-  Lemma has_sub_force_close T x : has_sub_on T (force_close x) = has_sub_on T x.
-  Proof.
-    unfold has_sub_on. destruct (force_close_fields x) as (Et & _ & _ & _ & _ & Hs).
-    rewrite Et. destruct (c_sub (force_close x)) as [sb|].
-    - destruct Hs as (_ & sb0 & ->). reflexivity.
-    - rewrite Hs. reflexivity.
-  Qed.
-
-  Lemma ginv_restore st rows hi :
-    ginv gf st -> st_queue st = [] -> nodup_keys rows = true -> ginv gf (do_restore st rows hi).
-  Proof.
-    intros [Gnd Gst Glok Ginc Ghi Gh Gr Gc Gn] Hq Hnd.
-    destruct Gh as (pub & r & Hlog & Hr & Hall & Hbuf & Hcl).
-    constructor; cbn [do_restore st_store st_log st_base st_hi st_queue st_bufs st_clients st_cache st_epoch].
-    - apply nodup_keys_spec, Hnd.
-    - intros k; reflexivity.
-    - constructor.
-    - constructor.
-    - lia.
-    - exists [], (st_hi st). split; [rewrite Hq; reflexivity|]. split; [lia|]. split; [constructor|]. split.
-      + intros T tb' Hf Hold. rewrite find_buf_map in Hf by reflexivity.
-        destruct (find_buf T (st_bufs st)); [|discriminate]. injection Hf as <-. discriminate.
-      + intros c x' Hf. rewrite find_client_map in Hf.
+        -- destruct Hs as [Hs|(sb & Hs & Hs')]; [left; exact Hs|]. right. eexists. split; [exact Hs'|]. discriminate.
+        -- eapply (cinv_ext (hist_of st)); [reflexivity|reflexivity|reflexivity|reflexivity| |exact Hcl].
+           intros sb _ _ Hl. eapply live_publish; [|exact Hlq|exact Hl].
+           intros tb Hf. eapply find_buf_ts; eauto.
+    + intros T tb' Hf. rewrite find_buf_map in Hf by apply publish_ts.
+      destruct (find_buf T (st_bufs st)) as [tb|] eqn:Ef; [|discriminate]. injection Hf as <-.
+      rewrite publish_id, publish_refs, count_map by (intros; apply has_sub_close_acl). apply (Gr T tb Ef).
+    + destruct Gi as [Gi1 Gi2]. split.
+      * intros T tb' Hf. rewrite find_buf_map in Hf by apply publish_ts.
+        destruct (find_buf T (st_bufs st)) as [tb|] eqn:Ef; [|discriminate]. injection Hf as <-.
+        rewrite publish_id. apply (Gi1 T tb Ef).
+      * intros c x' sb Hf Hs. rewrite find_client_map in Hf.
         destruct (find_client c (st_clients st)) as [x|] eqn:Ec; [|discriminate]. injection Hf as <-.
-        destruct (Hcl c x Ec) as (Hi & Hep & Hz & Hs & Hk & _). cbn [hist_of h_hi h_epoch] in Hi, Hep.
-        destruct (force_close_fields x) as (Et & Ev & Ei & Eh & Ee & Hsub).
-        unfold cinv, knows. rewrite Et, Ev, Ei, Eh, Ee. cbn [hist_of h_hi h_epoch do_restore st_hi st_epoch].
-        split; [lia|]. split; [lia|]. split; [exact Hz|]. split; [exact Hs|]. split.
-        * destruct (N.eq_dec (c_idx x) 0) as [E0|E0]; [left; exact E0|]. right; right. split; [lia|exact Hi].
-        * destruct (c_sub (force_close x)) as [sb|]; [|exact I]. destruct Hsub as [Hne _].
-          destruct (s_status sb); try exact I. congruence.
-    - intros T. rewrite find_buf_map by reflexivity. specialize (Gr T).
-      rewrite count_map by (intros; apply has_sub_force_close).
-      destruct (find_buf T (st_bufs st)); cbn [option_map tb_refs]; exact Gr.
-    - intros T sn Hf. discriminate.
-    - rewrite map_fst_map. exact Gn.
-  Qed.
+        destruct (close_acl_sub (b_close b) x) as (_ & _ & _ & _ & _ & [Hs'|(sb0 & Hs0 & Hs')]).
+        -- rewrite Hs' in Hs. eapply Gi2; eauto.
+        -- rewrite Hs' in Hs. injection Hs as <-. cbn [s_buf]. eapply Gi2; eauto.
+    + intros T sn Hf. specialize (Gc T sn Hf). rewrite find_buf_map by apply publish_ts.
+      eapply (cacheinv_ext (hist_of st)); [reflexivity|reflexivity|reflexivity| |exact Gc].
+      intros Hl. eapply live_publish; [|exact Hlq|exact Hl]. intros tb Hf'. eapply find_buf_ts; eauto.
+    + rewrite map_fst_map. exact Gn.
+  - (* a batch of a replaced store: dropped *)
+    apply N.eqb_neq in Eg.
+    assert (Hlq : live_queue st = map snd (filter (fun gb => N.eqb (fst gb) (st_epoch st)) q)).
+    { unfold live_queue. rewrite Eq. cbn [filter fst]. apply N.eqb_neq in Eg. rewrite Eg. reflexivity. }
+    match goal with |- ginv ?s => set (st' := s) end.
+    assert (Hh : hist_of st' = hist_of st).
+    { unfold hist_of. rewrite Hlq. reflexivity. }
+    constructor; rewrite ?Hh; subst st';
+      cbn [st_store st_log st_base st_hi st_queue st_bufs st_clients st_cache st_epoch st_nbuf]; auto.
+    exists pub, r. split.
+    { unfold live_queue. cbn [st_queue st_epoch]. rewrite Hlog, Hlq. reflexivity. }
+    auto.
+Qed.
 
-  (* ---------------------------------------------------------------- unsubscribe *)
+(* ---------------------------------------------------------------- evict *)
 
-  Lemma count_ge_one T c y l :
-    find_client c l = Some y -> has_sub_on T y = true -> (1 <= count_subs T l)%nat.
-  Proof.
-    induction l as [|[c' z] r IH]; cbn [find_client count_subs]; [discriminate|].
-    destruct (N.eqb c c').
-    - intros H; injection H as ->. intros ->. lia.
-    - intros H1 H2. specialize (IH H1 H2). lia.
-  Qed.
+Lemma ginv_evict st T : ginv st -> ginv (do_evict st T).
+Proof.
+  intros [Gnd Gst Ginc Ghi Gq Gh Gr Gi Gc Gn].
+  constructor; cbn [do_evict st_store st_log st_base st_hi st_queue st_bufs st_clients st_cache st_epoch st_nbuf]; auto.
+  intros T' sn Hf. destruct (ts_eqb T' T) eqn:E.
+  - apply ts_eqb_eq in E; subst T'. rewrite find_del_snap_same in Hf. discriminate.
+  - apply ts_eqb_neq in E. rewrite find_del_snap_other in Hf by exact E. apply Gc, Hf.
+Qed.
 
-  Lemma live_same h T ob ob' off tb tb' :
-    ob = Some tb -> ob' = Some tb' -> tb_items tb' = tb_items tb -> tb_old tb' = tb_old tb ->
-    buf_live ob off -> buf_live ob' off /\ tail h T ob' off = tail h T ob off.
-  Proof.
-    intros -> -> Ei Eo (tb0 & E & Hold & Hoff). injection E as <-. split.
-    - exists tb'. rewrite Ei, Eo. auto.
-    - unfold tail. cbn [ob_items]. rewrite Ei. reflexivity.
-  Qed.
+(* ---------------------------------------------------------------- restore *)
 
-  (* dropping or closing the subscription only weakens what is asked of the client *)
-  Lemma cinv_weaken h ob ob' r x x' :
-    c_ts x' = c_ts x -> c_view x' = c_view x -> c_idx x' = c_idx x -> c_h x' = c_h x ->
-    c_epoch x' = c_epoch x ->
-    match c_sub x' with Some sb => s_status sb <> Open | None => True end ->
-    cinv gf h ob r x -> cinv gf h ob' r x'.
-  Proof.
-    intros Et Ev Ei Eh Ee Hs (Hi & Hep & Hz & Hsn & Hk & Hsub). unfold cinv, knows in *.
-    rewrite Et, Ev, Ei, Eh, Ee. split; [exact Hi|]. split; [exact Hep|]. split; [exact Hz|].
-    split; [exact Hsn|]. split; [exact Hk|].
-    destruct (c_sub x') as [sb|]; [|exact I]. destruct (s_status sb); try exact I. congruence.
-  Qed.
+Lemma force_close_fields x :
+  c_ts (force_close x) = c_ts x /\ c_view (force_close x) = c_view x /\
+  c_idx (force_close x) = c_idx x /\ c_h (force_close x) = c_h x /\
+  c_epoch (force_close x) = c_epoch x /\
+  match c_sub (force_close x) with
+  | Some sb => s_status sb <> Open /\ exists sb0, c_sub x = Some sb0 /\ s_buf sb0 = s_buf sb
+  | None => c_sub x = None
+  end.
+Proof.
+  unfold force_close. destruct (c_sub x) as [sb|] eqn:Es; [|rewrite Es; auto 10].
+  destruct (s_status sb) eqn:Est; cbn; rewrite ?Es; repeat split; auto; try congruence; eauto.
+Qed.
 
-  Lemma has_sub_other T' x : T' <> c_ts x -> has_sub_on T' x = false.
-  Proof.
-    intros Hne. unfold has_sub_on. destruct (c_sub x); [|reflexivity]. apply ts_eqb_neq, Hne.
-  Qed.
+Lemma ginv_restore st rows hi :
+  ginv st -> nodup_keys rows = true -> ginv (do_restore st rows hi).
+Proof.
+  intros [Gnd Gst Ginc Ghi Gq Gh Gr Gi Gc Gn] Hnd.
+  destruct Gh as (pub & r & Hlog & Hr & Hall & Hbuf & Hcl).
+  assert (Hlq : live_queue (do_restore st rows hi) = []).
+  { unfold live_queue. cbn [do_restore st_queue st_epoch]. apply live_queue_none.
+    eapply Forall_impl; [|exact Gq]. cbn. intros; lia. }
+  constructor; cbn [do_restore st_store st_log st_base st_hi st_queue st_bufs st_clients st_cache st_epoch st_nbuf].
+  - apply nodup_keys_spec, Hnd.
+  - intros k; reflexivity.
+  - constructor.
+  - lia.
+  - eapply Forall_impl; [|exact Gq]. cbn. intros; lia.
+  - exists [], (st_hi st). rewrite Hlq. split; [reflexivity|]. split; [lia|]. split; [constructor|]. split.
+    + intros T tb' Hf. discriminate.
+    + intros c x' Hf. rewrite find_client_map in Hf.
+      destruct (find_client c (st_clients st)) as [x|] eqn:Ec; [|discriminate]. injection Hf as <-.
+      destruct (Hcl c x Ec) as (Hi & Hep & Hz & Hs & Hk & _). cbn [hist_of h_hi h_epoch] in Hi, Hep.
+      destruct (force_close_fields x) as (Et & Ev & Ei & Eh & Ee & Hsub).
+      unfold cinv, knows. rewrite Et, Ev, Ei, Eh, Ee. cbn [hist_of h_hi h_epoch do_restore st_hi st_epoch].
+      split; [lia|]. split; [lia|]. split; [exact Hz|]. split; [exact Hs|]. split.
+      * destruct (N.eq_dec (c_idx x) 0) as [E0|E0]; [left; exact E0|]. right; right. split; [lia|exact Hi].
+      * destruct (c_sub (force_close x)) as [sb|]; [|exact I]. destruct Hsub as [Hne _].
+        destruct (s_status sb); try exact I. congruence.
+  - intros T tb Hf. discriminate.
+  - destruct Gi as [Gi1 Gi2]. split; [intros T tb Hf; discriminate|].
+    intros c x' sb Hf Hs. rewrite find_client_map in Hf.
+    destruct (find_client c (st_clients st)) as [x|] eqn:Ec; [|discriminate]. injection Hf as <-.
+    destruct (force_close_fields x) as (_ & _ & _ & _ & _ & Hsub). rewrite Hs in Hsub.
+    destruct Hsub as (_ & sb0 & Hs0 & <-). eapply Gi2; eauto.
+  - intros T sn Hf. discriminate.
+  - rewrite map_fst_map. exact Gn.
+Qed.
 
-  Lemma ginv_unsub st c : ginv gf st -> ginv gf (fst (do_unsub st c)).
-  Proof.
-    intros G. unfold do_unsub. destruct (find_client c (st_clients st)) as [x|] eqn:Ec; [|exact G].
-    destruct (c_sub x) as [sb|] eqn:Es; [|exact G]. cbn [fst].
-    destruct G as [Gnd Gst Glok Ginc Ghi Gh Gr Gc Gn].
-    destruct Gh as (pub & r & Hlog & Hr & Hall & Hbuf & Hcl).
-    set (T := c_ts x). set (cl' := put_client c (drop_sub x) (st_clients st)).
-    assert (Hx : has_sub_on T x = true) by (unfold has_sub_on, T; rewrite Es; apply ts_eqb_refl).
-    assert (Hd : forall T', has_sub_on T' (drop_sub x) = false) by reflexivity.
-    assert (HcT : (count_subs T cl' + 1 = count_subs T (st_clients st))%nat).
-    { pose proof (count_put_client T c (drop_sub x) _ Gn) as H. rewrite Ec, Hx, Hd in H. cbn [b2n] in H.
-      fold cl' in H. lia. }
-    assert (HcO : forall T', T' <> T -> count_subs T' cl' = count_subs T' (st_clients st)).
-    { intros T' Hne. pose proof (count_put_client T' c (drop_sub x) _ Gn) as H.
-      rewrite Ec, Hd, (has_sub_other T' x) in H by exact Hne. cbn [b2n] in H. fold cl' in H. lia. }
-    assert (Hge : (1 <= count_subs T (st_clients st))%nat) by (eapply count_ge_one; eauto).
-    unfold release. cbn [with_clients st_bufs]. fold T.
-    pose proof (Gr T) as GrT. destruct (find_buf T (st_bufs st)) as [tb|] eqn:Eb; [|lia].
-    assert (Hcx : forall ob', cinv gf (hist_of st) ob' r (drop_sub x)).
-    { intros ob'. eapply cinv_weaken with (x := x). 1-5: reflexivity. exact I. exact (Hcl c x Ec). }
-    destruct (tb_refs tb) as [|[|n]] eqn:Er.
-    1, 2: (* the last reference: the buffer and its cached snapshot go away *)
-      assert (Hz0 : count_subs T cl' = 0%nat) by lia;
-      constructor; cbn [with_clients st_store st_log st_base st_hi st_queue st_bufs st_clients st_cache st_epoch]; auto;
-      [ exists pub, r; split; [exact Hlog|]; split; [exact Hr|]; split; [exact Hall|]; split;
-        [ intros T' tb' Hf Hold; destruct (ts_eqb T' T) eqn:E;
-          [ apply ts_eqb_eq in E; subst T'; rewrite find_del_buf_same in Hf; discriminate
-          | apply ts_eqb_neq in E; rewrite find_del_buf_other in Hf by exact E; eapply Hbuf; eauto ]
-        | intros c' y Hf; destruct (N.eq_dec c' c) as [->|Hne];
-          [ unfold cl' in Hf; rewrite find_put_client_same in Hf; injection Hf as <-; apply Hcx
-          | unfold cl' in Hf; rewrite find_put_client_other in Hf by exact Hne;
-            change (hist_of _) with (hist_of st);
-            destruct (ts_eqb (c_ts y) T) eqn:E;
-            [ apply ts_eqb_eq in E; rewrite E, find_del_buf_same;
-              eapply cinv_nosub; [|exact (Hcl c' y Hf)];
-              destruct (c_sub y) as [sby|] eqn:Esy; [|exact I]; exfalso;
-              assert (has_sub_on T y = true) as Hy by (unfold has_sub_on; rewrite Esy, E; apply ts_eqb_refl);
-              assert (find_client c' cl' = Some y) as Hf' by (unfold cl'; rewrite find_put_client_other by exact Hne; exact Hf);
-              pose proof (count_ge_one T c' y cl' Hf' Hy); lia
-            | apply ts_eqb_neq in E; rewrite find_del_buf_other by exact E; exact (Hcl c' y Hf) ] ] ]
-      | intros T'; destruct (ts_eqb T' T) eqn:E;
-        [ apply ts_eqb_eq in E; subst T'; rewrite find_del_buf_same; exact Hz0
-        | apply ts_eqb_neq in E; rewrite find_del_buf_other by exact E; rewrite HcO by exact E; apply Gr ]
-      | intros T' sn Hf; change (hist_of _) with (hist_of st); destruct (ts_eqb T' T) eqn:E;
-        [ apply ts_eqb_eq in E; subst T'; rewrite find_del_snap_same in Hf; discriminate
-        | apply ts_eqb_neq in E; rewrite find_del_snap_other in Hf by exact E;
-          rewrite find_del_buf_other by exact E; apply Gc, Hf ]
-      | apply nodup_put_client, Gn ].
-    (* other references remain: only the counter changes *)
-    set (tb' := TBuf T (S n) (tb_items tb) (tb_old tb)).
-    assert (Hsame : forall T', find_buf T' (put_buf tb' (st_bufs st)) =
-                               if ts_eqb T' T then Some tb' else find_buf T' (st_bufs st)).
-    { intros T'. destruct (ts_eqb T' T) eqn:E.
-      - apply ts_eqb_eq in E; subst T'. apply (find_put_buf_same tb').
-      - apply ts_eqb_neq in E. apply find_put_buf_other. exact E. }
-    constructor; cbn [with_clients st_store st_log st_base st_hi st_queue st_bufs st_clients st_cache st_epoch]; auto.
-    - exists pub, r. split; [exact Hlog|]. split; [exact Hr|]. split; [exact Hall|]. split.
-      + intros T' tb0 Hf Hold. rewrite Hsame in Hf. destruct (ts_eqb T' T) eqn:E.
-        * apply ts_eqb_eq in E; subst T'. injection Hf as <-. exact (Hbuf T tb Eb Hold).
-        * eapply Hbuf; eauto.
-      + intros c' y Hf. change (hist_of _) with (hist_of st). destruct (N.eq_dec c' c) as [->|Hne].
-        * unfold cl' in Hf. rewrite find_put_client_same in Hf. injection Hf as <-. apply Hcx.
-        * unfold cl' in Hf. rewrite find_put_client_other in Hf by exact Hne. rewrite Hsame.
-          destruct (ts_eqb (c_ts y) T) eqn:E; [|exact (Hcl c' y Hf)].
-          apply ts_eqb_eq in E. pose proof (Hcl c' y Hf) as Hy. rewrite E, Eb in Hy.
-          eapply (cinv_ext (hist_of st)); [reflexivity|reflexivity|reflexivity|reflexivity| |exact Hy].
-          intros sby _ _ Hl. eapply live_same; [reflexivity|reflexivity|reflexivity|reflexivity|exact Hl].
-    - intros T'. rewrite Hsame. destruct (ts_eqb T' T) eqn:E.
-      + apply ts_eqb_eq in E; subst T'. cbn [tb_refs tb']. lia.
-      + apply ts_eqb_neq in E. rewrite HcO by exact E. apply Gr.
-    - intros T' sn Hf. change (hist_of _) with (hist_of st). rewrite Hsame. pose proof (Gc T' sn Hf) as Hc.
-      destruct (ts_eqb T' T) eqn:E; [|exact Hc]. apply ts_eqb_eq in E; subst T'. rewrite Eb in Hc.
-      eapply (cacheinv_ext (hist_of st)); [reflexivity|reflexivity|reflexivity| |exact Hc].
-      intros Hl. eapply live_same; [reflexivity|reflexivity|reflexivity|reflexivity|exact Hl].
-    - apply nodup_put_client, Gn.
-  Qed.
+(* ---------------------------------------------------------------- unsubscribe *)
 
-  (* ---------------------------------------------------------------- next *)
+Lemma count_ge_one T id c y l :
+  find_client c l = Some y -> has_sub_on T id y = true -> (1 <= count_subs T id l)%nat.
+Proof.
+  induction l as [|[c' z] r IH]; cbn [find_client count_subs]; [discriminate|].
+  destruct (N.eqb c c').
+  - intros H; injection H as ->. intros ->. lia.
+  - intros H1 H2. specialize (IH H1 H2). lia.
+Qed.
 
-  Lemma proj_evs_match T log i evs :
-    In (IEv i evs) (proj T log) -> forall e, In e evs -> matches T (e_key e) = true.
-  Proof.
-    induction log as [|b r IH]; cbn [proj flat_map]; [intros []|]. fold (proj T r).
-    rewrite in_app_iff. intros [H|H]; [|apply IH, H].
-    destruct (evs_for T (b_evs b)) as [|e0 l] eqn:E; cbn in H; [destruct H|].
-    destruct H as [H|[]]. injection H as _ <-. intros e He. rewrite <- E in He.
-    unfold evs_for in He. apply filter_In in He. apply He.
-  Qed.
+(* the client gives up its subscription (the buffer's counter is not yet touched) *)
+Lemma ginv_drop_sub st c x :
+  ginv st -> find_client c (st_clients st) = Some x ->
+  ginv (with_clients st (put_client c (drop_sub x) (st_clients st))) /\
+  forall T id, (count_subs T id (put_client c (drop_sub x) (st_clients st)) + b2n (has_sub_on T id x)
+                = count_subs T id (st_clients st))%nat.
+Proof.
+  intros [Gnd Gst Ginc Ghi Gq Gh Gr Gi Gc Gn] Ec.
+  destruct Gh as (pub & r & Hlog & Hr & Hall & Hbuf & Hcl).
+  assert (Hcnt : forall T id, (count_subs T id (put_client c (drop_sub x) (st_clients st)) + b2n (has_sub_on T id x)
+                               = count_subs T id (st_clients st))%nat).
+  { intros T id. pose proof (count_put_client T id c (drop_sub x) _ Gn) as H. rewrite Ec in H.
+    change (has_sub_on T id (drop_sub x)) with false in H. cbn [b2n] in H. lia. }
+  split; [|exact Hcnt].
+  constructor; cbn [with_clients st_store st_log st_base st_hi st_queue st_bufs st_clients st_cache st_epoch st_nbuf]; auto.
+  - exists pub, r. split; [exact Hlog|]. split; [exact Hr|]. split; [exact Hall|]. split; [exact Hbuf|].
+    intros c' y Hf. change (hist_of _) with (hist_of st). destruct (N.eq_dec c' c) as [->|Hne].
+    + rewrite find_put_client_same in Hf. injection Hf as <-.
+      eapply cinv_weaken with (x := x). 1-5: reflexivity. exact I. exact (Hcl c x Ec).
+    + rewrite find_put_client_other in Hf by exact Hne. exact (Hcl c' y Hf).
+  - intros T tb Hf. specialize (Gr T tb Hf). specialize (Hcnt T (tb_id tb)). lia.
+  - destruct Gi as [Gi1 Gi2]. split; [exact Gi1|]. intros c' y sb Hf Hs.
+    destruct (N.eq_dec c' c) as [->|Hne].
+    + rewrite find_put_client_same in Hf. injection Hf as <-. discriminate.
+    + rewrite find_put_client_other in Hf by exact Hne. eapply Gi2; eauto.
+  - apply nodup_put_client, Gn.
+Qed.
 
-  Lemma lastev_nomatch T k evs :
-    (forall e, In e evs -> matches T (e_key e) = true) -> matches T k = false -> lastev k evs = None.
-  Proof.
-    intros Hall Hk. induction evs as [|e r IH]; cbn [lastev]; [reflexivity|].
-    rewrite IH by (intros e' He'; apply Hall; right; exact He').
-    destruct (key_eqb k (e_key e)) eqn:E; [|reflexivity]. apply key_eqb_eq in E. subst k.
-    rewrite (Hall e) in Hk by (left; reflexivity). discriminate.
-  Qed.
+(* freeBuf *)
+Lemma ginv_release st T id :
+  ginv st ->
+  (forall tb, find_buf T (st_bufs st) = Some tb -> tb_id tb = id ->
+              (count_subs T id (st_clients st) + 1 <= tb_refs tb)%nat) ->
+  ginv (release T id st).
+Proof.
+  intros G Hcnt. unfold release. destruct (find_buf T (st_bufs st)) as [tb|] eqn:Eb; [|exact G].
+  destruct (N.eqb (tb_id tb) id) eqn:Eid; [|exact G]. apply N.eqb_eq in Eid.
+  specialize (Hcnt tb eq_refl Eid).
+  destruct G as [Gnd Gst Ginc Ghi Gq Gh Gr Gi Gc Gn].
+  destruct Gh as (pub & r & Hlog & Hr & Hall & Hbuf & Hcl).
+  destruct (tb_refs tb) as [|[|n]] eqn:Er.
+  1, 2: (* the last reference: the buffer and its cached snapshot go away *)
+    assert (Hz0 : count_subs T id (st_clients st) = 0%nat) by lia;
+    constructor; cbn [st_store st_log st_base st_hi st_queue st_bufs st_clients st_cache st_epoch st_nbuf]; auto;
+    [ exists pub, r; split; [exact Hlog|]; split; [exact Hr|]; split; [exact Hall|]; split;
+      [ intros T' tb' Hf; destruct (ts_eqb T' T) eqn:E;
+        [ apply ts_eqb_eq in E; subst T'; rewrite find_del_buf_same in Hf; discriminate
+        | apply ts_eqb_neq in E; rewrite find_del_buf_other in Hf by exact E; eapply Hbuf; eauto ]
+      | intros c' y Hf; change (hist_of _) with (hist_of st);
+        destruct (ts_eqb (c_ts y) T) eqn:E;
+        [ apply ts_eqb_eq in E; rewrite E, find_del_buf_same;
+          eapply cinv_nosub; [|exact (Hcl c' y Hf)];
+          destruct (c_sub y) as [sby|] eqn:Esy; [|exact I];
+          destruct (s_status sby) eqn:Esty; try discriminate; exfalso;
+          destruct (Hcl c' y Hf) as (_ & _ & _ & _ & _ & Hsub); rewrite Esy, Esty, E, Eb in Hsub;
+          destruct Hsub as [(tb0 & Etb0 & _ & Hid0) _]; injection Etb0 as <-;
+          assert (has_sub_on T id y = true) as Hy
+            by (unfold has_sub_on; rewrite Esy, E, ts_eqb_refl, <- Hid0, Eid; apply N.eqb_refl);
+          pose proof (count_ge_one T id c' y _ Hf Hy); lia
+        | apply ts_eqb_neq in E; rewrite find_del_buf_other by exact E; exact (Hcl c' y Hf) ] ]
+    | intros T' tb' Hf; destruct (ts_eqb T' T) eqn:E;
+      [ apply ts_eqb_eq in E; subst T'; rewrite find_del_buf_same in Hf; discriminate
+      | apply ts_eqb_neq in E; rewrite find_del_buf_other in Hf by exact E; apply Gr, Hf ]
+    | destruct Gi as [Gi1 Gi2]; split; [|exact Gi2]; intros T' tb' Hf; destruct (ts_eqb T' T) eqn:E;
+      [ apply ts_eqb_eq in E; subst T'; rewrite find_del_buf_same in Hf; discriminate
+      | apply ts_eqb_neq in E; rewrite find_del_buf_other in Hf by exact E; eapply Gi1; eauto ]
+    | intros T' sn Hf; change (hist_of _) with (hist_of st); destruct (ts_eqb T' T) eqn:E;
+      [ apply ts_eqb_eq in E; subst T'; rewrite find_del_snap_same in Hf; discriminate
+      | apply ts_eqb_neq in E; rewrite find_del_snap_other in Hf by exact E;
+        rewrite find_del_buf_other by exact E; apply Gc, Hf ] ].
+  (* other references remain: only the counter changes *)
+  set (tb' := TBuf T (S n) (tb_items tb) (tb_id tb)).
+  assert (Hsame : forall T', find_buf T' (put_buf tb' (st_bufs st)) =
+                             if ts_eqb T' T then Some tb' else find_buf T' (st_bufs st)).
+  { intros T'. destruct (ts_eqb T' T) eqn:E.
+    - apply ts_eqb_eq in E; subst T'. apply (find_put_buf_same tb').
+    - apply ts_eqb_neq in E. apply find_put_buf_other. exact E. }
+  constructor; cbn [st_store st_log st_base st_hi st_queue st_bufs st_clients st_cache st_epoch st_nbuf]; auto.
+  - exists pub, r. split; [exact Hlog|]. split; [exact Hr|]. split; [exact Hall|]. split.
+    + intros T' tb0 Hf. rewrite Hsame in Hf. destruct (ts_eqb T' T) eqn:E.
+      * apply ts_eqb_eq in E; subst T'. injection Hf as <-. exact (Hbuf T tb Eb).
+      * eapply Hbuf; eauto.
+    + intros c' y Hf. change (hist_of _) with (hist_of st). rewrite Hsame.
+      destruct (ts_eqb (c_ts y) T) eqn:E; [|exact (Hcl c' y Hf)].
+      apply ts_eqb_eq in E. pose proof (Hcl c' y Hf) as Hy. rewrite E, Eb in Hy.
+      eapply (cinv_ext (hist_of st)); [reflexivity|reflexivity|reflexivity|reflexivity| |exact Hy].
+      intros sby _ _ Hl. rewrite E. eapply live_same; [reflexivity|reflexivity|reflexivity|reflexivity|exact Hl].
+  - intros T' tb0 Hf. rewrite Hsame in Hf. destruct (ts_eqb T' T) eqn:E.
+    + apply ts_eqb_eq in E; subst T'. injection Hf as <-. cbn [tb_refs tb_id tb']. rewrite Eid. lia.
+    + apply Gr, Hf.
+  - destruct Gi as [Gi1 Gi2]. split; [|exact Gi2]. intros T' tb0 Hf. rewrite Hsame in Hf.
+    destruct (ts_eqb T' T) eqn:E.
+    + injection Hf as <-. cbn [tb_id tb']. eapply Gi1; eauto.
+    + eapply Gi1; eauto.
+  - intros T' sn Hf. change (hist_of _) with (hist_of st). rewrite Hsame. pose proof (Gc T' sn Hf) as Hc.
+    destruct (ts_eqb T' T) eqn:E; [|exact Hc]. apply ts_eqb_eq in E; subst T'. rewrite Eb in Hc.
+    eapply (cacheinv_ext (hist_of st)); [reflexivity|reflexivity|reflexivity| |exact Hc].
+    intros Hl. eapply live_same; [reflexivity|reflexivity|reflexivity|reflexivity|exact Hl].
+Qed.
 
-  Lemma proj_item_batch T log it : In it (proj T log) -> exists b, In b log /\ item_idx it = b_idx b.
-  Proof.
-    induction log as [|b r IH]; cbn [proj flat_map]; [intros []|]. fold (proj T r).
-    rewrite in_app_iff. intros [H|H].
-    - destruct (evs_for T (b_evs b)); cbn in H; [destruct H|]. destruct H as [<-|[]].
-      exists b. split; [left; reflexivity|reflexivity].
-    - destruct (IH H) as (b0 & Hb & Hi). exists b0. split; [right; exact Hb|exact Hi].
-  Qed.
+Lemma ginv_unsub st c : ginv st -> ginv (fst (do_unsub st c)).
+Proof.
+  intros G. unfold do_unsub. destruct (find_client c (st_clients st)) as [x|] eqn:Ec; [|exact G].
+  destruct (c_sub x) as [sb|] eqn:Es; [|exact G]. cbn [fst].
+  destruct (ginv_drop_sub st c x G Ec) as [G1 Hcnt].
+  apply ginv_release; [exact G1|]. cbn [with_clients st_bufs st_clients]. intros tb Hf Hid.
+  specialize (Hcnt (c_ts x) (s_buf sb)).
+  assert (has_sub_on (c_ts x) (s_buf sb) x = true) as Hx
+    by (unfold has_sub_on; rewrite Es, ts_eqb_refl, N.eqb_refl; reflexivity).
+  rewrite Hx in Hcnt. cbn [b2n] in Hcnt. destruct G as [_ _ _ _ _ _ Gr _ _ _].
+  specialize (Gr _ _ Hf). rewrite Hid in Gr. lia.
+Qed.
 
-  Lemma last_default {A} (l : list A) d d' : l <> [] -> last l d = last l d'.
-  Proof.
-    induction l as [|a l IH]; [congruence|]. intros _. destruct l as [|b l]; [reflexivity|].
-    cbn [last] in *. apply IH. discriminate.
-  Qed.
+(* ---------------------------------------------------------------- next *)
 
-  Lemma ievs_cons_ev i evs l : ievs (IEv i evs :: l) = evs ++ ievs l.
-  Proof. reflexivity. Qed.
+Lemma proj_evs_match T log i evs :
+  In (IEv i evs) (proj T log) -> forall e, In e evs -> matches T (e_key e) = true.
+Proof.
+  induction log as [|b r IH]; cbn [proj flat_map]; [intros []|]. fold (proj T r).
+  rewrite in_app_iff. intros [H|H]; [|apply IH, H].
+  destruct (evs_for T (b_evs b)) as [|e0 l] eqn:E; cbn in H; [destruct H|].
+  destruct H as [H|[]]. injection H as _ <-. intros e He. rewrite <- E in He.
+  unfold evs_for in He. apply filter_In in He. apply He.
+Qed.
 
-  (* delivering the next private item (snapshot framing) *)
-  Lemma cinv_deliver_pre h ob r x sb it pre' :
-    cinv gf h ob r x -> c_sub x = Some sb -> s_status sb = Open -> s_pre sb = it :: pre' ->
-    cinv gf h ob r (handle (h_epoch h) x (Sub Open pre' (s_off sb)) it).
-  Proof.
-    intros (Hi & Hep & Hz & Hs & Hk & Hsub) Es Est Epre. rewrite Es, Est in Hsub.
-    destruct Hsub as [Hl [Hst|Hsn]].
-    { destruct Hst as (Hp & _). congruence. }
-    destruct Hsn as (acc & rest & A & B2 & D & s & Hh & Hso).
-    destruct Hh as [[Hh Hpre]|(Hh & -> & Hpre)].
-    - (* accumulating *)
-      rewrite Epre in Hpre. destruct rest as [|it0 rest'].
-      + (* EndOfSnapshot: the accumulated events become the view *)
-        cbn [app] in Hpre. injection Hpre as -> ->. unfold handle. rewrite Hh.
-        destruct Hso as [Hsp Hr Hv Ht Hle Hgt Hss Hg].
-        assert (Hc : core gf h (c_ts x) (apply acc (c_view x)) s A [] B2 D s).
-        { constructor; auto.
-          - intros k. specialize (Hv k). cbn [ievs flat_map] in Hv. rewrite app_nil_r in Hv.
-            cbn [ievs flat_map app apply fold_left]. change (fold_left apply1 (ievs (A ++ B2)) (h_base h))
-              with (apply (ievs (A ++ B2)) (h_base h)).
-            rewrite <- Hv. apply meq_apply. apply Hz. eapply Hs; eauto. }
-        unfold cinv, knows. cbn [c_idx c_epoch c_view c_h c_sub c_ts s_status].
-        split; [lia|]. split; [lia|]. split; [intros ->; lia|]. split; [intros ? H; discriminate|].
-        split; [right; left; split; [reflexivity|exists A, [], B2, D, s; exact Hc]|].
-        split; [exact Hl|]. left. cbn [s_pre s_off c_h c_epoch c_ts c_view c_idx].
-        split; [reflexivity|]. split; [left; reflexivity|]. split; [reflexivity|].
-        exists A, [], B2, D, s. split; [exact Hc|exact Ht].
-      + (* one more snapshot item *)
-        cbn [app] in Hpre. injection Hpre as <- ->.
-        destruct Hso as [Hsp Hr Hv Ht Hle Hgt Hss Hg]. inversion Hr as [|? ? Hit Hr']; subst.
-        destruct it as [i evs| |]; try contradiction. unfold handle. rewrite Hh.
-        unfold cinv, knows. cbn [c_idx c_epoch c_view c_h c_sub c_ts s_status].
-        split; [exact Hi|]. split; [exact Hep|]. split; [exact Hz|]. split; [intros ? _; eapply Hs; eauto|].
-        split; [exact Hk|]. split; [exact Hl|]. right.
-        exists (acc ++ evs), rest', A, B2, D, s. cbn [c_h s_pre s_off c_ts].
-        split; [left; split; reflexivity|]. constructor; auto.
-        intros k. rewrite <- (Hv k), ievs_cons_ev, app_assoc. reflexivity.
-    - (* NewSnapshotToFollow: reset *)
-      rewrite Epre in Hpre. injection Hpre as -> ->. unfold handle. rewrite Hh.
-      unfold cinv, knows. cbn [c_idx c_epoch c_view c_h c_sub c_ts s_status].
-      split; [lia|]. split; [exact Hep|]. split; [intros _ k; reflexivity|]. split; [reflexivity|].
-      split; [left; reflexivity|]. split; [exact Hl|]. right.
-      exists [], rest, A, B2, D, s. cbn [c_h s_pre s_off c_ts]. split; [left; split; reflexivity|exact Hso].
-  Qed.
+Lemma lastev_nomatch T k evs :
+  (forall e, In e evs -> matches T (e_key e) = true) -> matches T k = false -> lastev k evs = None.
+Proof.
+  intros Hall Hk. induction evs as [|e r IH]; cbn [lastev]; [reflexivity|].
+  rewrite IH by (intros e' He'; apply Hall; right; exact He').
+  destruct (key_eqb k (e_key e)) eqn:E; [|reflexivity]. apply key_eqb_eq in E. subst k.
+  rewrite (Hall e) in Hk by (left; reflexivity). discriminate.
+Qed.
 
-  (* delivering the next item of the topic buffer *)
-  Lemma cinv_deliver_buf h ob r x sb it :
-    incr (map item_idx (proj (c_ts x) (h_log h))) ->
-    (forall it', In it' (proj (c_ts x) (h_log h)) -> 1 <= item_idx it' <= h_hi h) ->
-    cinv gf h ob r x -> c_sub x = Some sb -> s_status sb = Open -> s_pre sb = [] ->
-    nth_error (ob_items ob) (s_off sb) = Some it ->
-    cinv gf h ob r (handle (h_epoch h) x (Sub Open [] (S (s_off sb))) it).
-  Proof.
-    intros Hinc Hbnd (Hi & Hep & Hz & Hs & Hk & Hsub) Es Est Epre Enth. rewrite Es, Est in Hsub.
-    destruct Hsub as [Hl [Hst|Hsn]].
-    2: { destruct Hsn as (acc & rest & A & B2 & D & s & [[_ Hpre]|(_ & _ & Hpre)] & _);
-         rewrite Epre in Hpre; [destruct rest; discriminate|discriminate]. }
-    destruct Hst as (_ & Hh & He & A & B1 & B2 & D & s & Hc & Ht).
-    destruct Hc as [Hsp Hv Hle Hgt Hci Hss Hg].
-    unfold tail in Ht. rewrite (nth_error_skipn _ _ _ Enth) in Ht. cbn [app] in Ht.
-    assert (Hin : In it (proj (c_ts x) (h_log h))).
-    { rewrite Hsp, !in_app_iff. right; right. rewrite <- in_app_iff, <- Ht. left; reflexivity. }
-    pose proof (proj_iev (c_ts x) (h_log h)) as Hiev. rewrite Forall_forall in Hiev.
-    specialize (Hiev it Hin). destruct it as [i evs| |]; try contradiction.
-    pose proof (proj_evs_match _ _ _ _ Hin) as Hm.
-    assert (Hl' : buf_live ob (S (s_off sb))).
-    { destruct Hl as (tb & -> & Hold & Hoff). exists tb. split; [reflexivity|]. split; [exact Hold|].
-      cbn [ob_items] in Enth. apply nth_error_Some. congruence. }
-    assert (Hx' : handle (h_epoch h) x (Sub Open [] (S (s_off sb))) (IEv i evs) =
-                  Client (c_ts x) (c_tok x) (c_rpc x) (apply evs (c_view x)) i HStream
-                         (Some (Sub Open [] (S (s_off sb)))) (c_epoch x)).
-    { unfold handle. destruct Hh as [-> | ->]; reflexivity. }
-    rewrite Hx'. clear Hx'.
-    assert (Hview : forall M, (forall k, aget k (c_view x) = if matches (c_ts x) k then aget k M else None) ->
-                              forall k, aget k (apply evs (c_view x)) =
-                                        if matches (c_ts x) k then aget k (apply evs M) else None).
-    { intros M HM k. rewrite !aget_apply. destruct (matches (c_ts x) k) eqn:Ek.
-      - destruct (lastev k evs); [reflexivity|]. rewrite HM, Ek. reflexivity.
-      - rewrite (lastev_nomatch (c_ts x)) by assumption. rewrite HM, Ek. reflexivity. }
-    destruct (Hbnd _ Hin) as [Hi1 Hi2]. cbn [item_idx] in Hi1, Hi2.
-    destruct B2 as [|b2 B2'].
-    - (* an event committed after the snapshot *)
-      cbn [app] in Ht. destruct D as [|d D']; [discriminate|]. injection Ht as <- Ht.
-      apply Forall_cons_iff in Hgt as [Hsi Hgt']. cbn [item_idx] in Hsi.
-      assert (Hc' : core gf h (c_ts x) (apply evs (c_view x)) i (A ++ B1 ++ [IEv i evs]) [] [] D' i).
-      { constructor.
-        - rewrite Hsp. cbn [app]. rewrite <- !app_assoc. reflexivity.
-        - intros k. cbn [ievs flat_map app]. rewrite !app_nil_r, (app_assoc A B1), ievs_app, apply_app.
-          cbn [ievs flat_map]. rewrite app_nil_r. change (apply [] ?m) with m.
-          revert k. apply Hview. intros k. rewrite (Hv k). destruct (matches (c_ts x) k); [|reflexivity].
-          rewrite app_nil_r, ievs_app. apply apply_replay.
-        - cbn [app]. rewrite app_nil_r. rewrite app_assoc. apply Forall_app. split.
-          + rewrite app_nil_r in Hle. eapply Forall_impl; [|exact Hle]. cbn. intros; lia.
-          + constructor; [cbn [item_idx]; lia|constructor].
-        - rewrite Hsp in Hinc. cbn [app] in Hinc. rewrite !app_assoc in Hinc.
-          rewrite map_app in Hinc. apply incr_app_inv in Hinc as (_ & Hd & _).
-          cbn [map] in Hd. inversion Hd as [|? ? _ Hf]; subst. rewrite Forall_forall in *.
-          intros it' Hit'. apply Hf. apply in_map, Hit'.
-        - reflexivity.
-        - lia.
-        - auto. }
-      revert Hc'. cbn [app]. intros Hc'.
-      unfold cinv, knows. cbn [c_idx c_epoch c_view c_h c_sub c_ts s_status].
-      split; [lia|]. split; [exact Hep|]. split; [intros ->; lia|]. split; [intros ? H; discriminate|].
-      split; [right; left; split; [exact He|eexists _, _, _, _, _; exact Hc']|].
-      split; [exact Hl'|]. left. cbn [s_pre s_off c_h c_epoch c_ts c_view c_idx].
-      split; [reflexivity|]. split; [left; reflexivity|]. split; [exact He|].
-      eexists _, _, _, _, _. split; [exact Hc'|]. unfold tail. exact Ht.
-    - (* an event that was already contained in the snapshot (replay) *)
-      cbn [app] in Ht. injection Ht as <- Ht.
-      assert (Hc' : core gf h (c_ts x) (apply evs (c_view x)) i A (B1 ++ [IEv i evs]) B2' D s).
+Lemma proj_item_batch T log it : In it (proj T log) -> exists b, In b log /\ item_idx it = b_idx b.
+Proof.
+  induction log as [|b r IH]; cbn [proj flat_map]; [intros []|]. fold (proj T r).
+  rewrite in_app_iff. intros [H|H].
+  - destruct (evs_for T (b_evs b)); cbn in H; [destruct H|]. destruct H as [<-|[]].
+    exists b. split; [left; reflexivity|reflexivity].
+  - destruct (IH H) as (b0 & Hb & Hi). exists b0. split; [right; exact Hb|exact Hi].
+Qed.
+
+Lemma ievs_cons_ev i evs l : ievs (IEv i evs :: l) = evs ++ ievs l.
+Proof. reflexivity. Qed.
+
+Lemma skipn_plus {A} x y (l : list A) : skipn (x + y) l = skipn x (skipn y l).
+Proof.
+  revert l. induction y as [|y IH]; intros l; [rewrite Nat.add_0_r; reflexivity|].
+  rewrite Nat.add_succ_r. destruct l as [|a l]; cbn [skipn]; [destruct x; reflexivity|apply IH].
+Qed.
+
+Lemma skipped_zero it : skipped 0 it = false.
+Proof. destruct it as [i evs| |]; cbn; try reflexivity. destruct (N.ltb 0 i) eqn:E; [|reflexivity]. cbn. apply N.leb_gt, N.ltb_lt, E. Qed.
+
+Lemma drop_skipped_zero l : drop_skipped 0 l = l.
+Proof. destruct l as [|it r]; cbn [drop_skipped]; [reflexivity|]. rewrite skipped_zero. reflexivity. Qed.
+
+Lemma first_new_skip snap R l off :
+  Forall (fun it => skipped snap it = true) R ->
+  first_new snap (R ++ l) off = first_new snap l (off + List.length R)%nat.
+Proof.
+  intros H. revert off. induction H as [|it R Hit _ IH]; intros off; cbn [app first_new List.length].
+  - rewrite Nat.add_0_r. reflexivity.
+  - rewrite Hit, IH. f_equal. lia.
+Qed.
+
+Lemma first_new_none snap R off :
+  Forall (fun it => skipped snap it = true) R -> first_new snap R off = None.
+Proof.
+  intros H. rewrite <- (app_nil_r R), first_new_skip by exact H. reflexivity.
+Qed.
+
+Lemma skipped_iev snap it : is_iev it -> 1 <= item_idx it <= snap -> skipped snap it = true.
+Proof.
+  destruct it as [i evs| |]; cbn; try contradiction. intros _ [H1 H2].
+  apply andb_true_iff. split; [apply N.ltb_lt; lia|apply N.leb_le; lia].
+Qed.
+
+Lemma not_skipped_gt snap it : snap < item_idx it -> skipped snap it = false.
+Proof.
+  destruct it as [i evs| |]; cbn; try reflexivity. intros H.
+  apply andb_false_iff. right. apply N.leb_gt. exact H.
+Qed.
+
+(* delivering the next private item (snapshot framing) *)
+Lemma cinv_deliver_pre h ob r x sb it pre' :
+  (forall it', In it' (proj (c_ts x) (h_log h)) -> 1 <= item_idx it' <= h_hi h) ->
+  cinv h ob r x -> c_sub x = Some sb -> s_status sb = Open ->
+  drop_skipped (s_snap sb) (s_pre sb) = it :: pre' ->
+  cinv h ob r (handle (h_epoch h) x (Sub Open pre' (s_off sb) (s_buf sb) (snap_after (s_snap sb) it)) it).
+Proof.
+  intros Hbnd (Hi & Hep & Hz & Hs & Hk & Hsub) Es Est Epre. rewrite Es, Est in Hsub.
+  destruct Hsub as [Hl [Hst|Hsn]].
+  { destruct Hst as (Hp & _). rewrite Hp in Epre. discriminate. }
+  destruct Hsn as (Hs0 & acc & rest & A & B2 & D & s & Hh & Hso).
+  rewrite Hs0, drop_skipped_zero in Epre. rewrite Hs0.
+  destruct Hh as [[Hh Hpre]|(Hh & -> & Hpre)].
+  - (* accumulating *)
+    rewrite Epre in Hpre. destruct rest as [|it0 rest'].
+    + (* EndOfSnapshot: the accumulated events become the view *)
+      cbn [app] in Hpre. injection Hpre as -> ->. unfold handle. rewrite Hh. cbn [snap_after].
+      destruct Hso as [Hsp Hr Hv Ht Hle Hgt Hss].
+      assert (Hc : core h (c_ts x) (apply acc (c_view x)) s (A ++ B2) D).
       { constructor; auto.
-        - rewrite Hsp, <- !app_assoc. reflexivity.
-        - rewrite <- !app_assoc. cbn [app]. rewrite ievs_app, apply_app. cbn [ievs flat_map]. rewrite app_nil_r.
-          apply Hview. exact Hv.
-        - rewrite <- !app_assoc. exact Hle.
-        - rewrite lastidx_app_single. reflexivity.
-        - intros Hgf. destruct (Hg Hgf) as [_ H]. discriminate. }
+        - rewrite Hsp, app_assoc. reflexivity.
+        - intros k. specialize (Hv k). cbn [ievs flat_map] in Hv. rewrite app_nil_r in Hv.
+          rewrite <- Hv. apply meq_apply. apply Hz. eapply Hs; eauto. }
+      assert (HR : Forall (fun it => skipped s it = true) B2).
+      { rewrite Forall_forall. intros it Hit.
+        assert (In it (proj (c_ts x) (h_log h))) as Hin by (rewrite Hsp, !in_app_iff; auto).
+        apply skipped_iev.
+        - pose proof (proj_iev (c_ts x) (h_log h)) as Hiev. rewrite Forall_forall in Hiev. apply Hiev, Hin.
+        - split; [apply Hbnd, Hin|]. rewrite Forall_forall in Hle. apply Hle. rewrite in_app_iff. auto. }
       unfold cinv, knows. cbn [c_idx c_epoch c_view c_h c_sub c_ts s_status].
-      split; [lia|]. split; [exact Hep|]. split; [intros ->; lia|]. split; [intros ? H; discriminate|].
-      split; [right; left; split; [exact He|eexists _, _, _, _, _; exact Hc']|].
-      split; [exact Hl'|]. left. cbn [s_pre s_off c_h c_epoch c_ts c_view c_idx].
-      split; [reflexivity|]. split; [left; reflexivity|]. split; [exact He|].
-      eexists _, _, _, _, _. split; [exact Hc'|]. unfold tail. exact Ht.
-  Qed.
-
-  (* replacing one client by a client on the same topic/subject with the same kind of subscription *)
-  Lemma ginv_put st c x x' :
-    ginv gf st -> find_client c (st_clients st) = Some x ->
-    c_ts x' = c_ts x -> (forall T, has_sub_on T x' = has_sub_on T x) ->
-    (forall r, 1 <= r <= st_hi st -> Forall (fun b => r < b_idx b <= st_hi st) (st_log st) ->
-               cinv gf (hist_of st) (find_buf (c_ts x) (st_bufs st)) r x ->
-               cinv gf (hist_of st) (find_buf (c_ts x) (st_bufs st)) r x') ->
-    ginv gf (with_clients st (put_client c x' (st_clients st))).
-  Proof.
-    intros [Gnd Gst Glok Ginc Ghi Gh Gr Gc Gn] Ec Et Hh Hupd.
-    destruct Gh as (pub & r & Hlog & Hr & Hall & Hbuf & Hcl).
-    constructor; cbn [with_clients st_store st_log st_base st_hi st_queue st_bufs st_clients st_cache st_epoch]; auto.
-    - exists pub, r. split; [exact Hlog|]. split; [exact Hr|]. split; [exact Hall|]. split; [exact Hbuf|].
-      intros c' y Hf. change (hist_of _) with (hist_of st). destruct (N.eq_dec c' c) as [->|Hne].
-      + rewrite find_put_client_same in Hf. injection Hf as <-. rewrite Et. apply Hupd; auto. exact (Hcl c x Ec).
-      + rewrite find_put_client_other in Hf by exact Hne. exact (Hcl c' y Hf).
-    - intros T. pose proof (count_put_client T c x' _ Gn) as H. rewrite Ec, Hh in H.
-      assert (count_subs T (put_client c x' (st_clients st)) = count_subs T (st_clients st)) as -> by lia.
-      apply Gr.
-    - apply nodup_put_client, Gn.
-  Qed.
-
-  Lemma ginv_next st c : ginv gf st -> ginv gf (fst (do_next st c)).
-  Proof.
-    intros G. unfold do_next. destruct (find_client c (st_clients st)) as [x|] eqn:Ec; [|exact G].
-    destruct (c_sub x) as [sb|] eqn:Es; [|exact G].
-    assert (Hinc : incr (map item_idx (proj (c_ts x) (st_log st)))) by (apply incr_proj, G).
-    destruct (s_status sb) eqn:Est.
-    - (* open *)
-      destruct (s_pre sb) as [|it pre'] eqn:Epre.
-      + destruct (nth_error (buf_items (c_ts x) (st_bufs st)) (s_off sb)) as [it|] eqn:Enth; [|exact G].
-        cbn [fst]. eapply ginv_put; eauto.
-        * unfold handle. destruct (c_h x), it; reflexivity.
-        * intros T. unfold has_sub_on, handle. rewrite Es. destruct (c_h x), it; reflexivity.
-        * intros r Hr Hall Hc. change (st_epoch st) with (h_epoch (hist_of st)).
-          eapply cinv_deliver_buf; eauto.
-          intros it' Hit'. apply proj_item_batch in Hit' as (b & Hb & ->).
-          rewrite Forall_forall in Hall. specialize (Hall b Hb). cbn [hist_of h_hi]. lia.
-      + cbn [fst]. eapply ginv_put; eauto.
-        * unfold handle. destruct (c_h x), it; reflexivity.
-        * intros T. unfold has_sub_on, handle. rewrite Es. destruct (c_h x), it; reflexivity.
-        * intros r Hr Hall Hc. change (st_epoch st) with (h_epoch (hist_of st)).
-          eapply cinv_deliver_pre; eauto.
-    - (* force closed *)
-      destruct (c_rpc x); [|exact G]. cbn [fst]. eapply ginv_put; eauto.
-      + intros T. unfold has_sub_on. cbn [c_sub c_ts]. rewrite Es. reflexivity.
-      + intros r Hr Hall (Hi & Hep & Hz & Hs & Hk & Hsub). unfold cinv, knows.
-        cbn [c_idx c_epoch c_view c_h c_sub c_ts]. rewrite Est.
-        split; [lia|]. split; [exact Hep|]. split; [intros _ k; reflexivity|]. split; [reflexivity|].
-        split; [left; reflexivity|exact I].
-    - (* closed after an ACL change *)
-      destruct (c_rpc x); [|exact G]. cbn [fst]. eapply ginv_put; eauto.
-      + intros T. unfold has_sub_on. cbn [c_sub c_ts]. rewrite Es. reflexivity.
-      + intros r Hr Hall (Hi & Hep & Hz & Hs & Hk & Hsub). unfold cinv, knows.
-        cbn [c_idx c_epoch c_view c_h c_sub c_ts]. rewrite Est.
-        split; [lia|]. split; [exact Hep|]. split; [intros _ k; reflexivity|]. split; [reflexivity|].
-        split; [left; reflexivity|exact I].
-  Qed.
-
-  (* ---------------------------------------------------------------- subscribe *)
-
-  Lemma put_put_client c x y l : put_client c y (put_client c x l) = put_client c y l.
-  Proof.
-    induction l as [|[c' z] r IH]; cbn [put_client].
-    - rewrite N.eqb_refl. reflexivity.
-    - destruct (N.eqb c c') eqn:E; cbn [put_client]; rewrite ?N.eqb_refl, ?E; [reflexivity|]. rewrite IH. reflexivity.
-  Qed.
-
-  Lemma last_item_spec items :
-    match last_item items with
-    | Some it => exists l, items = l ++ [it]
-    | None => items = []
-    end.
-  Proof.
-    unfold last_item. induction items as [|a l _] using rev_ind; [reflexivity|].
-    rewrite map_app. cbn [map]. rewrite last_last. exists l. reflexivity.
-  Qed.
-
-  Lemma splice_len items s :
-    (forall it, In it items -> item_idx it <= s) -> splice_off items s = List.length items.
-  Proof.
-    intros H. unfold splice_off. pose proof (last_item_spec items) as Hl.
-    destruct (last_item items) as [[j evs| |]|]; try reflexivity.
-    destruct Hl as (l & ->). specialize (H (IEv j evs)). rewrite in_app_iff in H.
-    specialize (H (or_intror (or_introl eq_refl))). cbn [item_idx] in H.
-    destruct (N.ltb s j) eqn:E; [apply N.ltb_lt in E; lia|reflexivity].
-  Qed.
-
-  Lemma head_index_spec items i :
-    head_has_index items i = true -> exists l evs, items = l ++ [IEv i evs].
-  Proof.
-    unfold head_has_index. pose proof (last_item_spec items) as Hl.
-    destruct (last_item items) as [[j evs| |]|]; try discriminate.
-    destruct Hl as (l & ->). intros E. apply N.eqb_eq in E. subst j. eauto.
-  Qed.
-
-  Lemma snap_events_spec T m idx :
-    ievs (snap_events T m idx) = map row_ev (rows_of T m) /\ Forall is_iev (snap_events T m idx).
-  Proof.
-    unfold snap_events. destruct (per_row (fst T)).
-    - induction (rows_of T m) as [|kv l IH]; cbn [map ievs flat_map]; [split; [reflexivity|constructor]|].
-      destruct IH as [IH1 IH2]. split.
-      + fold (ievs (map (fun kv0 => IEv idx [Ev (fst kv0) (Some (snd kv0))]) l)). rewrite IH1. reflexivity.
-      + constructor; [exact I|exact IH2].
-    - destruct (rows_of T m) as [|kv l]; [split; [reflexivity|constructor]|].
-      cbn [ievs flat_map]. rewrite app_nil_r. split; [reflexivity|]. constructor; [exact I|constructor].
-  Qed.
-
-  Lemma lastidx_app_nonempty a b d : b <> [] -> lastidx (a ++ b) d = lastidx b 0.
-  Proof.
-    intros Hne. destruct (exists_last Hne) as (b' & x & ->). rewrite app_assoc, !lastidx_app_single. reflexivity.
-  Qed.
-
-  (* an idle client that knows nothing can be added *)
-  Lemma ginv_add_idle st c T tok rpc :
-    ginv gf st -> find_client c (st_clients st) = None ->
-    ginv gf (with_clients st (put_client c (Client T tok rpc [] 0 (HSnap []) None (st_epoch st)) (st_clients st))).
-  Proof.
-    intros [Gnd Gst Glok Ginc Ghi Gh Gr Gc Gn] Ec.
-    destruct Gh as (pub & r & Hlog & Hr & Hall & Hbuf & Hcl).
-    constructor; cbn [with_clients st_store st_log st_base st_hi st_queue st_bufs st_clients st_cache st_epoch]; auto.
-    - exists pub, r. split; [exact Hlog|]. split; [exact Hr|]. split; [exact Hall|]. split; [exact Hbuf|].
-      intros c' y Hf. change (hist_of _) with (hist_of st). destruct (N.eq_dec c' c) as [->|Hne].
-      + rewrite find_put_client_same in Hf. injection Hf as <-. unfold cinv, knows.
-        cbn [c_idx c_epoch c_view c_h c_sub c_ts hist_of h_hi h_epoch].
-        split; [lia|]. split; [lia|]. split; [intros _ k; reflexivity|]. split; [reflexivity|].
-        split; [left; reflexivity|exact I].
-      + rewrite find_put_client_other in Hf by exact Hne. exact (Hcl c' y Hf).
-    - intros T'. pose proof (count_put_client T' c (Client T tok rpc [] 0 (HSnap []) None (st_epoch st)) _ Gn) as H.
-      rewrite Ec in H. change (has_sub_on T' (Client T tok rpc [] 0 (HSnap []) None (st_epoch st))) with false in H.
-      cbn [b2n] in H.
-      assert (count_subs T' (put_client c (Client T tok rpc [] 0 (HSnap []) None (st_epoch st)) (st_clients st))
-              = count_subs T' (st_clients st)) as -> by lia.
-      apply Gr.
-    - apply nodup_put_client, Gn.
-  Qed.
-
-  (* the request's view of the world, as [step_ok] / [restore_ok] / [gapfree_ok] state it *)
-  Definition sub_env_ok (st : state) (T : ts) (idx qidx : N) : Prop :=
-    (match snd T, wild_ok (fst T) with
-     | None, false => True
-     | _, _ => Forall (fun b => touches T b = true -> b_idx b <= qidx) (st_log st) /\ qidx <= st_hi st
-     end) /\
-    (forall b, find_buf T (st_bufs st) = Some b -> tb_old b = false) /\
-    (gf = true -> sub_path st T idx = PBuild -> st_queue st = []).
-
-  Lemma touches_proj T b : touches T b = false -> proj T [b] = [].
-  Proof.
-    unfold touches. cbn [proj flat_map]. destruct (evs_for T (b_evs b)); [reflexivity|discriminate].
-  Qed.
-
-  Lemma proj_le T log q :
-    Forall (fun b => touches T b = true -> b_idx b <= q) log ->
-    Forall (fun it => item_idx it <= q) (proj T log).
-  Proof.
-    induction 1 as [|b l Hb _ IH]; cbn [proj flat_map]; [constructor|]. fold (proj T l).
-    apply Forall_app. split; [|exact IH].
-    unfold touches in Hb. destruct (evs_for T (b_evs b)); [constructor|].
-    constructor; [cbn [item_idx]; apply Hb; reflexivity|constructor].
-  Qed.
-
-  Lemma sub_path_not_err st T idx :
-    sub_path st T idx <> PErr ->
-    sub_path st T idx =
-      (if negb (N.eqb idx 0) && head_has_index (buf_items T (st_bufs st)) idx then PResume
-       else match find_snap T (st_cache st) with Some _ => PCache | None => PBuild end) /\
-    (snd T = None -> wild_ok (fst T) = true).
-  Proof.
-    unfold sub_path. destruct (snd T); [intros _; split; [reflexivity|discriminate]|].
-    destruct (wild_ok (fst T)); [intros _; split; reflexivity|congruence].
-  Qed.
-
-  (* bufferForSubscription + refs++ for client c, whose new state x1 holds a subscription *)
-  Definition attach_buf (st : state) (T : ts) : tbuf :=
-    match find_buf T (st_bufs st) with
-    | Some b => TBuf T (S (tb_refs b)) (tb_items b) (tb_old b)
-    | None => TBuf T 1 [] false
-    end.
-
-  Lemma attach_items st T : tb_items (attach_buf st T) = buf_items T (st_bufs st).
-  Proof. unfold attach_buf, buf_items. destruct (find_buf T (st_bufs st)); reflexivity. Qed.
-
-  Lemma ginv_attach st c x0 x1 sb1 cache' :
-    ginv gf st -> find_client c (st_clients st) = Some x0 -> c_sub x0 = None ->
-    c_ts x1 = c_ts x0 -> c_sub x1 = Some sb1 ->
-    (forall b, find_buf (c_ts x0) (st_bufs st) = Some b -> tb_old b = false) ->
-    (forall pub r,
-        st_log st = pub ++ st_queue st -> 1 <= r <= st_hi st ->
-        Forall (fun b => r < b_idx b <= st_hi st) (st_log st) ->
-        (exists X, proj (c_ts x0) pub = X ++ tb_items (attach_buf st (c_ts x0))) ->
-        cinv gf (hist_of st) (find_buf (c_ts x0) (st_bufs st)) r x0 ->
-        cinv gf (hist_of st) (Some (attach_buf st (c_ts x0))) r x1 /\
-        (forall T' sn, find_snap T' cache' = Some sn ->
-                       find_snap T' (st_cache st) = Some sn \/
-                       (T' = c_ts x0 /\ cacheinv gf (hist_of st) T' (Some (attach_buf st (c_ts x0))) sn))) ->
-    ginv gf (State (st_store st) (st_queue st) (put_buf (attach_buf st (c_ts x0)) (st_bufs st)) cache'
-                   (put_client c x1 (st_clients st)) (st_cache_on st) (st_hi st) (st_log st) (st_base st)
-                   (st_epoch st)).
-  Proof.
-    intros G Ec Es0 Et Es1 Hold Hupd. pose proof G as [Gnd Gst Glok Ginc Ghi Gh Gr Gc Gn].
-    destruct Gh as (pub & r & Hlog & Hr & Hall & Hbuf & Hcl).
-    set (T := c_ts x0) in *. set (tb := attach_buf st T) in *.
-    assert (Hts : tb_ts tb = T) by (unfold tb, attach_buf; destruct (find_buf T (st_bufs st)); reflexivity).
-    assert (Htold : tb_old tb = false).
-    { unfold tb, attach_buf. destruct (find_buf T (st_bufs st)) as [b|] eqn:E; cbn [tb_old]; [|reflexivity].
-      first [exact (Hold b E)|exact (Hold b eq_refl)]. }
-    assert (Hsame : forall T', find_buf T' (put_buf tb (st_bufs st)) =
-                               if ts_eqb T' T then Some tb else find_buf T' (st_bufs st)).
-    { intros T'. destruct (ts_eqb T' T) eqn:E.
-      - apply ts_eqb_eq in E; subst T'. rewrite <- Hts. apply find_put_buf_same.
-      - apply ts_eqb_neq in E. apply find_put_buf_other. rewrite Hts. exact E. }
-    assert (HX : exists X, proj T pub = X ++ tb_items tb).
-    { unfold tb, attach_buf. destruct (find_buf T (st_bufs st)) as [b|] eqn:E; cbn [tb_items].
-      - apply (Hbuf T b E). first [exact (Hold b E)|exact (Hold b eq_refl)].
-      - exists (proj T pub). rewrite app_nil_r. reflexivity. }
-    destruct (Hupd pub r Hlog Hr Hall HX (Hcl c x0 Ec)) as [Hc1 Hcache].
-    assert (Hlive : forall off h, buf_live (find_buf T (st_bufs st)) off ->
-                                  buf_live (Some tb) off /\
-                                  tail h T (Some tb) off = tail h T (find_buf T (st_bufs st)) off).
-    { intros off h Hl. destruct Hl as (b & Eb & Hob & Hoff). eapply live_same; [exact Eb|reflexivity| | |].
-      - unfold tb, attach_buf. rewrite Eb. reflexivity.
-      - unfold tb, attach_buf. rewrite Eb. reflexivity.
-      - exists b. auto. }
-    assert (Hx0 : forall T', has_sub_on T' x0 = false) by (intros; unfold has_sub_on; rewrite Es0; reflexivity).
-    assert (Hx1 : forall T', has_sub_on T' x1 = ts_eqb T' T) by (intros; unfold has_sub_on; rewrite Es1, Et; reflexivity).
-    constructor; cbn [st_store st_log st_base st_hi st_queue st_bufs st_clients st_cache st_epoch]; auto.
-    - exists pub, r. split; [exact Hlog|]. split; [exact Hr|]. split; [exact Hall|]. split.
-      + intros T' tb0 Hf Hold0. rewrite Hsame in Hf. destruct (ts_eqb T' T) eqn:E.
-        * apply ts_eqb_eq in E; subst T'. injection Hf as <-. exact HX.
-        * eapply Hbuf; eauto.
-      + intros c' y Hf. change (hist_of _) with (hist_of st). destruct (N.eq_dec c' c) as [->|Hne].
-        * rewrite find_put_client_same in Hf. injection Hf as <-. rewrite Et, Hsame. fold T.
-          rewrite ts_eqb_refl. exact Hc1.
-        * rewrite find_put_client_other in Hf by exact Hne. rewrite Hsame.
-          destruct (ts_eqb (c_ts y) T) eqn:E; [|exact (Hcl c' y Hf)].
-          apply ts_eqb_eq in E. pose proof (Hcl c' y Hf) as Hy. rewrite E in Hy.
-          eapply (cinv_ext (hist_of st)); [reflexivity|reflexivity|reflexivity|reflexivity| |exact Hy].
-          intros sby _ _ Hl. rewrite E. apply Hlive, Hl.
-    - intros T'. rewrite Hsame. pose proof (count_put_client T' c x1 _ Gn) as H.
-      rewrite Ec, Hx0, Hx1 in H. cbn [b2n] in H. specialize (Gr T'). destruct (ts_eqb T' T) eqn:E.
-      + apply ts_eqb_eq in E; subst T'. cbn [b2n] in H. unfold tb, attach_buf.
-        destruct (find_buf T (st_bufs st)); cbn [tb_refs]; lia.
-      + cbn [b2n] in H. assert (count_subs T' (put_client c x1 (st_clients st)) = count_subs T' (st_clients st)) as -> by lia.
-        exact Gr.
-    - intros T' sn Hf. change (hist_of _) with (hist_of st). rewrite Hsame.
-      destruct (Hcache T' sn Hf) as [Hf0|[-> Hc]].
-      + pose proof (Gc T' sn Hf0) as Hc. destruct (ts_eqb T' T) eqn:E; [|exact Hc].
-        apply ts_eqb_eq in E; subst T'.
-        eapply (cacheinv_ext (hist_of st)); [reflexivity|reflexivity|reflexivity| |exact Hc].
-        intros Hl. apply Hlive, Hl.
-      + fold T. rewrite ts_eqb_refl. exact Hc.
-    - apply nodup_put_client, Gn.
-  Qed.
-
-  (* the resumed subscription: the head of the topic buffer carries the client's index *)
-  Lemma cinv_resume h ob0 tb r x0 pub X :
-    incr (map item_idx (proj (c_ts x0) (h_log h))) ->
-    h_log h = pub ++ h_queue h -> proj (c_ts x0) pub = X ++ tb_items tb -> tb_old tb = false ->
-    (forall it, In it (proj (c_ts x0) (h_log h)) -> r < item_idx it) ->
-    c_idx x0 <> 0 -> head_has_index (tb_items tb) (c_idx x0) = true ->
-    cinv gf h ob0 r x0 ->
-    cinv gf h (Some tb) r
-         (Client (c_ts x0) (c_tok x0) (c_rpc x0) (c_view x0) (c_idx x0) (initial_handler (c_idx x0))
-                 (Some (Sub Open [] (List.length (tb_items tb)))) (c_epoch x0)).
-  Proof.
-    intros Hinc Hlog HX Hold Hr Hne Hhead (Hi & Hep & Hz & Hs & Hk & _).
-    apply head_index_spec in Hhead as (l & evs & Hitems).
-    set (T := c_ts x0) in *. set (P := X ++ tb_items tb).
-    assert (Hsplit : proj T (h_log h) = P ++ proj T (h_queue h)).
-    { rewrite Hlog, proj_app, HX. reflexivity. }
-    assert (HPne : P <> []).
-    { unfold P. rewrite Hitems. intros H. apply app_eq_nil in H as [_ H]. apply app_eq_nil in H as [_ H]. discriminate. }
-    assert (HPl : lastidx P 0 = c_idx x0).
-    { unfold P. rewrite Hitems, app_assoc, lastidx_app_single. reflexivity. }
-    pose proof Hinc as Hinc'. rewrite Hsplit in Hinc'.
-    destruct (incr_last_bounds _ _ _ Hinc' HPne HPl) as [HPle HQgt].
-    assert (Hih : initial_handler (c_idx x0) = HResume).
-    { unfold initial_handler. apply N.eqb_neq in Hne. rewrite Hne. reflexivity. }
-    assert (Htl : forall h', h_queue h' = h_queue h ->
-                             tail h' T (Some tb) (List.length (tb_items tb)) = proj T (h_queue h)).
-    { intros h' Eq. unfold tail. cbn [ob_items]. rewrite skipn_all, Eq. reflexivity. }
-    unfold cinv, knows. cbn [c_idx c_epoch c_view c_h c_sub c_ts s_status]. fold T.
-    split; [exact Hi|]. split; [exact Hep|]. split; [exact Hz|].
-    split; [rewrite Hih; intros ? H; discriminate|]. split; [exact Hk|].
-    split; [exists tb; repeat split; auto; lia|]. left. cbn [s_pre s_off c_h c_epoch c_ts c_view c_idx]. fold T.
-    split; [reflexivity|]. split; [right; exact Hih|].
-    destruct Hk as [Hk|[[He (A & B1 & B2 & D & s & Hc)]|[_ Hle]]]; [contradiction| |].
-    2: { (* a view of a replaced store: its index is below every index of the log *)
-      exfalso. assert (In (IEv (c_idx x0) evs) (proj T (h_log h))) as Hin.
-      { rewrite Hsplit. unfold P. rewrite Hitems, !in_app_iff. left; right; right. left; reflexivity. }
-      specialize (Hr _ Hin). cbn [item_idx] in Hr. lia. }
-    split; [exact He|]. fold T in Hc. destruct Hc as [Hsp Hv Hle Hgt Hci Hss Hg].
-    rewrite Hsplit in Hsp.
-    destruct B1 as [|b1 B1'].
-    - (* only the snapshot was applied: everything up to its index has been published *)
-      cbn [lastidx map last] in Hci. cbn [app] in Hsp, Hle, Hv.
-      rewrite Hci in HPle, HQgt. rewrite app_assoc in Hsp.
-      destruct (split_unique s _ _ _ _ HPle HQgt Hle Hgt Hsp) as [EP EQ].
-      exists (A ++ B2), [], [], D, s. split.
-      + constructor; auto.
-        * rewrite Hsplit, EP, EQ. reflexivity.
-        * intros k. rewrite (Hv k). cbn [app]. rewrite app_nil_r. reflexivity.
-        * cbn [app]. rewrite app_nil_r. exact Hle.
-      + rewrite Htl by reflexivity. rewrite EQ. reflexivity.
-    - (* some events were applied after the snapshot: the last one is the head of the buffer *)
-      assert (HB : lastidx (A ++ b1 :: B1') 0 = c_idx x0).
-      { rewrite lastidx_app_nonempty by discriminate. rewrite Hci. unfold lastidx. apply last_default.
-        cbn [map]. discriminate. }
-      assert (Hne' : A ++ b1 :: B1' <> []) by (destruct A; discriminate).
-      pose proof Hinc' as Hinc2. rewrite Hsp in Hinc2. rewrite (app_assoc A) in Hinc2.
-      destruct (incr_last_bounds _ _ _ Hinc2 Hne' HB) as [HAle HRgt].
-      rewrite (app_assoc A) in Hsp.
-      destruct (split_unique (c_idx x0) _ _ _ _ HPle HQgt HAle HRgt Hsp) as [EP EQ].
-      exists A, (b1 :: B1'), B2, D, s. split.
-      + constructor; auto. rewrite Hsplit, EP, EQ, <- app_assoc. reflexivity.
-      + rewrite Htl by reflexivity. exact EQ.
-  Qed.
-
-  (* the subscription that starts with a snapshot (fresh or cached) *)
-  Lemma cinv_snapshot h ob0 tb r x0 sn body A B2 D s :
-    tb_old tb = false -> (sn_off sn <= List.length (tb_items tb))%nat ->
-    sn_items sn = body ++ [IEos s] ->
-    snapok gf h (c_ts x0) (Some tb) [] body (sn_off sn) A B2 D s ->
-    cinv gf h ob0 r x0 ->
-    cinv gf h (Some tb) r
-         (Client (c_ts x0) (c_tok x0) (c_rpc x0) (c_view x0) (c_idx x0) (initial_handler (c_idx x0))
-                 (Some (Sub Open (if N.eqb (c_idx x0) 0 then sn_items sn else INstf :: sn_items sn) (sn_off sn)))
-                 (c_epoch x0)).
-  Proof.
-    intros Hold Hoff Hit Hso (Hi & Hep & Hz & Hs & Hk & _).
+      split; [lia|]. split; [lia|]. split; [intros ->; lia|]. split; [intros ? H; discriminate|].
+      split; [right; left; split; [reflexivity|exists (A ++ B2), D; exact Hc]|].
+      split; [exact Hl|]. left. cbn [s_pre s_off s_snap c_h c_epoch c_ts c_view c_idx].
+      split; [reflexivity|]. split; [left; reflexivity|]. split; [reflexivity|]. split; [lia|].
+      exists (A ++ B2), D, B2. split; [exact Hc|]. split; [exact Ht|exact HR].
+    + (* one more snapshot item *)
+      cbn [app] in Hpre. injection Hpre as <- ->.
+      destruct Hso as [Hsp Hr Hv Ht Hle Hgt Hss]. inversion Hr as [|? ? Hit Hr']; subst.
+      destruct it as [i evs| |]; try contradiction. unfold handle. rewrite Hh. cbn [snap_after].
+      unfold cinv, knows. cbn [c_idx c_epoch c_view c_h c_sub c_ts s_status].
+      split; [exact Hi|]. split; [exact Hep|]. split; [exact Hz|]. split; [intros ? _; eapply Hs; eauto|].
+      split; [exact Hk|]. split; [exact Hl|]. right. cbn [s_snap]. split; [reflexivity|].
+      exists (acc ++ evs), rest', A, B2, D, s. cbn [c_h s_pre s_off c_ts].
+      split; [left; split; reflexivity|]. constructor; auto.
+      intros k. rewrite <- (Hv k), ievs_cons_ev, app_assoc. reflexivity.
+  - (* NewSnapshotToFollow: reset *)
+    rewrite Epre in Hpre. injection Hpre as -> ->. unfold handle. rewrite Hh. cbn [snap_after].
     unfold cinv, knows. cbn [c_idx c_epoch c_view c_h c_sub c_ts s_status].
-    split; [exact Hi|]. split; [exact Hep|]. split; [exact Hz|]. split.
-    { unfold initial_handler. destruct (N.eqb (c_idx x0) 0) eqn:E; [|intros ? H; discriminate].
-      intros _ _. apply N.eqb_eq, E. }
-    split; [exact Hk|]. split; [exists tb; auto|]. right.
-    exists [], body, A, B2, D, s. cbn [c_h s_pre s_off c_ts]. split; [|exact Hso].
-    unfold initial_handler. destruct (N.eqb (c_idx x0) 0); rewrite Hit; [left|right]; auto.
-  Qed.
+    split; [lia|]. split; [exact Hep|]. split; [intros _ k; reflexivity|]. split; [reflexivity|].
+    split; [left; reflexivity|]. split; [exact Hl|]. right. cbn [s_snap]. split; [reflexivity|].
+    exists [], rest, A, B2, D, s. cbn [c_h s_pre s_off c_ts]. split; [left; split; reflexivity|exact Hso].
+Qed.
 
-  (* eventSnapshot.appendAndSplice on the store as it is now *)
-  Lemma build_snapok st T qidx pub X tb :
-    ginv gf st -> st_log st = pub ++ st_queue st -> proj T pub = X ++ tb_items tb ->
-    Forall (fun b => touches T b = true -> b_idx b <= qidx) (st_log st) -> qidx <= st_hi st ->
-    (gf = true -> st_queue st = []) ->
-    let s := if N.eqb qidx 0 then 1 else qidx in
-    build_snap T (st_store st) qidx (tb_items tb) =
-      Snap T (snap_events T (st_store st) qidx ++ [IEos s]) (List.length (tb_items tb)) /\
-    snapok gf (hist_of st) T (Some tb) [] (snap_events T (st_store st) qidx) (List.length (tb_items tb))
-           (proj T pub) (proj T (st_queue st)) [] s.
-  Proof.
-    intros G Hlog HX Hq Hqhi Hgap s. destruct G as [Gnd Gst Glok Ginc Ghi _ _ _ _].
-    assert (Hqs : qidx <= s) by (unfold s; destruct (N.eqb qidx 0) eqn:E; [apply N.eqb_eq in E|]; lia).
-    assert (Hs1 : 1 <= s <= st_hi st).
-    { unfold s. destruct (N.eqb qidx 0) eqn:E; [lia|]. apply N.eqb_neq in E. lia. }
-    assert (Hle : Forall (fun it => item_idx it <= s) (proj T (st_log st))).
-    { eapply Forall_impl; [|apply proj_le; exact Hq]. cbn. intros; lia. }
-    split.
-    - unfold build_snap. fold s. f_equal. apply splice_len. intros it Hit.
-      rewrite Forall_forall in Hle. apply Hle. rewrite Hlog, proj_app, HX, !in_app_iff. left; right; exact Hit.
-    - destruct (snap_events_spec T (st_store st) qidx) as [Hev Hiev].
-      constructor; cbn [hist_of h_log h_base h_hi h_queue]; auto.
-      + rewrite Hlog, proj_app, app_nil_r. reflexivity.
-      + intros k. cbn [app]. rewrite Hev, aget_apply_rows by exact Gnd.
-        destruct (matches T k) eqn:Ek; [|reflexivity].
-        rewrite (Gst k), (aget_all_evs_proj T) by assumption. rewrite Hlog, proj_app. reflexivity.
-      + unfold tail. cbn [ob_items hist_of h_queue]. rewrite skipn_all, app_nil_r. reflexivity.
-      + rewrite <- proj_app, <- Hlog. exact Hle.
-      + intros Hgf. rewrite (Hgap Hgf). reflexivity.
-  Qed.
+(* delivering the next item of the topic buffer that Next does not skip *)
+Lemma cinv_deliver_buf h ob r x sb items it off' :
+  incr (map item_idx (proj (c_ts x) (h_log h))) ->
+  (forall it', In it' (proj (c_ts x) (h_log h)) -> 1 <= item_idx it' <= h_hi h) ->
+  cinv h ob r x -> c_sub x = Some sb -> s_status sb = Open -> s_pre sb = [] ->
+  (forall tb, ob = Some tb -> tb_id tb = s_buf sb -> items = tb_items tb) ->
+  first_new (s_snap sb) (skipn (s_off sb) items) (s_off sb) = Some (it, off') ->
+  cinv h ob r (handle (h_epoch h) x (Sub Open [] off' (s_buf sb) (snap_after (s_snap sb) it)) it).
+Proof.
+  intros Hinc Hbnd (Hi & Hep & Hz & Hs & Hk & Hsub) Es Est Epre Hitems Hfn. rewrite Es, Est in Hsub.
+  destruct Hsub as [Hl [Hst|Hsn]].
+  2: { destruct Hsn as (_ & acc & rest & A & B2 & D & s & [[_ Hpre]|(_ & _ & Hpre)] & _);
+       rewrite Epre in Hpre; [destruct rest; discriminate|discriminate]. }
+  destruct Hst as (_ & Hh & He & Hsn & A & D & R & Hc & Ht & HR).
+  destruct Hc as [Hsp Hv Hle Hgt Hss].
+  destruct Hl as (tb & -> & Hoff & Hid). rewrite (Hitems tb eq_refl Hid) in Hfn.
+  unfold tail in Ht. cbn [ob_items] in Ht.
+  apply app_eq_app in Ht as (l & [[HS HD]|[HRl HQ]]).
+  2: { (* the buffer holds only skipped items *)
+       rewrite first_new_none in Hfn; [discriminate|]. rewrite HRl in HR. apply Forall_app in HR. apply HR. }
+  rewrite HS, first_new_skip in Hfn by exact HR.
+  destruct l as [|d l']; [discriminate|]. cbn [first_new] in Hfn.
+  assert (Hind : In d D) by (rewrite HD; left; reflexivity).
+  assert (Hdgt : c_idx x < item_idx d) by (rewrite Forall_forall in Hgt; apply Hgt, Hind).
+  rewrite not_skipped_gt in Hfn by lia. injection Hfn as <- <-.
+  assert (Hin : In d (proj (c_ts x) (h_log h))) by (rewrite Hsp, in_app_iff; auto).
+  pose proof (proj_iev (c_ts x) (h_log h)) as Hiev. rewrite Forall_forall in Hiev.
+  specialize (Hiev d Hin). destruct d as [i evs| |]; try contradiction. cbn [item_idx] in Hdgt.
+  pose proof (proj_evs_match _ _ _ _ Hin) as Hm.
+  destruct (Hbnd _ Hin) as [Hi1 Hi2]. cbn [item_idx] in Hi1, Hi2.
+  assert (Hskip : skipn (S (s_off sb + List.length R)) (tb_items tb) = l').
+  { replace (S (s_off sb + List.length R)) with ((List.length R + 1) + s_off sb)%nat by lia.
+    rewrite skipn_plus, HS.
+    replace (List.length R + 1)%nat with (List.length (R ++ [IEv i evs])) by (rewrite app_length; cbn; lia).
+    change (R ++ IEv i evs :: l') with (R ++ [IEv i evs] ++ l'). rewrite app_assoc.
+    rewrite skipn_app_le by lia. rewrite skipn_all. reflexivity. }
+  assert (Hx' : handle (h_epoch h) x (Sub Open [] (S (s_off sb + List.length R)) (s_buf sb) (snap_after (s_snap sb) (IEv i evs))) (IEv i evs) =
+                Client (c_ts x) (c_tok x) (c_rpc x) (apply evs (c_view x)) i HStream
+                       (Some (Sub Open [] (S (s_off sb + List.length R)) (s_buf sb) (s_snap sb))) (c_epoch x)).
+  { unfold handle. destruct Hh as [-> | ->]; reflexivity. }
+  rewrite Hx'. clear Hx'.
+  assert (Hview : forall k, aget k (apply evs (c_view x)) =
+                            if matches (c_ts x) k then aget k (apply (ievs (A ++ [IEv i evs])) (h_base h)) else None).
+  { intros k. rewrite ievs_app, apply_app. cbn [ievs flat_map]. rewrite app_nil_r.
+    rewrite (aget_apply k evs (c_view x)), (aget_apply k evs (apply (ievs A) (h_base h))).
+    destruct (matches (c_ts x) k) eqn:Ek.
+    - destruct (lastev k evs); [reflexivity|]. rewrite Hv, Ek. reflexivity.
+    - rewrite (lastev_nomatch (c_ts x)) by assumption. rewrite Hv, Ek. reflexivity. }
+  destruct D as [|d0 D']; [discriminate|]. cbn [app] in HD. injection HD as Hd0 HD. subst d0.
+  apply Forall_cons_iff in Hgt as [_ Hgt'].
+  assert (Hc' : core h (c_ts x) (apply evs (c_view x)) i (A ++ [IEv i evs]) D').
+  { constructor.
+    - rewrite Hsp, <- app_assoc. reflexivity.
+    - exact Hview.
+    - apply Forall_app. split.
+      + eapply Forall_impl; [|exact Hle]. cbn. intros; lia.
+      + constructor; [cbn [item_idx]; lia|constructor].
+    - rewrite Hsp in Hinc. rewrite map_app in Hinc. apply incr_app_inv in Hinc as (_ & Hd & _).
+      cbn [map] in Hd. inversion Hd as [|? ? _ Hf]; subst. rewrite Forall_forall in *.
+      intros it' Hit'. apply Hf. apply in_map, Hit'.
+    - lia. }
+  unfold cinv, knows. cbn [c_idx c_epoch c_view c_h c_sub c_ts s_status].
+  split; [lia|]. split; [exact Hep|]. split; [intros ->; lia|]. split; [intros ? H; discriminate|].
+  split; [right; left; split; [exact He|eexists _, _; exact Hc']|].
+  split.
+  { exists tb. split; [reflexivity|]. split; [|exact Hid].
+    assert (List.length (skipn (s_off sb) (tb_items tb)) = (List.length R + S (List.length l'))%nat) as Hlen
+      by (rewrite HS, app_length; reflexivity).
+    rewrite skipn_length in Hlen. cbn [s_off]. lia. }
+  left. cbn [s_pre s_off s_snap c_h c_epoch c_ts c_view c_idx].
+  split; [reflexivity|]. split; [left; reflexivity|]. split; [exact He|]. split; [lia|].
+  exists (A ++ [IEv i evs]), D', []. split; [exact Hc'|]. split; [|constructor].
+  unfold tail. cbn [ob_items app]. rewrite Hskip, HD. reflexivity.
+Qed.
 
-  Lemma ginv_sub_core st c x0 qidx :
-    ginv gf st -> find_client c (st_clients st) = Some x0 -> c_sub x0 = None ->
-    sub_env_ok st (c_ts x0) (c_idx x0) qidx ->
-    ginv gf (fst (do_subscribe_core st c x0 qidx)).
-  Proof.
-    intros G Ec Es0 (Hq & Hold & Hgap). unfold do_subscribe_core.
-    set (T := c_ts x0) in *. set (idx := c_idx x0) in *.
-    assert (Hpath : sub_path st T idx <> PErr ->
-                    sub_path st T idx =
-                    (if negb (N.eqb idx 0) && head_has_index (buf_items T (st_bufs st)) idx then PResume
-                     else match find_snap T (st_cache st) with Some _ => PCache | None => PBuild end) /\
-                    Forall (fun b => touches T b = true -> b_idx b <= qidx) (st_log st) /\ qidx <= st_hi st).
-    { intros Hne. destruct (sub_path_not_err st T idx Hne) as [Hp Hw]. split; [exact Hp|].
-      destruct (snd T); [exact Hq|]. rewrite Hw in Hq by reflexivity. exact Hq. }
-    assert (Hinc : incr (map item_idx (proj T (st_log st)))) by (apply incr_proj, G).
-    destruct (sub_path st T idx) eqn:Ep.
-    - (* unsupported wildcard: only the handler is re-initialised *)
+(* replacing one client by a client on the same topic/subject with the same kind of subscription *)
+Lemma ginv_put st c x x' :
+  ginv st -> find_client c (st_clients st) = Some x ->
+  c_ts x' = c_ts x -> (forall T id, has_sub_on T id x' = has_sub_on T id x) ->
+  (forall sb', c_sub x' = Some sb' -> exists sb, c_sub x = Some sb /\ s_buf sb = s_buf sb') ->
+  (forall r, 1 <= r <= st_hi st -> Forall (fun b => r < b_idx b <= st_hi st) (st_log st) ->
+             cinv (hist_of st) (find_buf (c_ts x) (st_bufs st)) r x ->
+             cinv (hist_of st) (find_buf (c_ts x) (st_bufs st)) r x') ->
+  ginv (with_clients st (put_client c x' (st_clients st))).
+Proof.
+  intros [Gnd Gst Ginc Ghi Gq Gh Gr Gi Gc Gn] Ec Et Hh Hb Hupd.
+  destruct Gh as (pub & r & Hlog & Hr & Hall & Hbuf & Hcl).
+  constructor; cbn [with_clients st_store st_log st_base st_hi st_queue st_bufs st_clients st_cache st_epoch st_nbuf]; auto.
+  - exists pub, r. split; [exact Hlog|]. split; [exact Hr|]. split; [exact Hall|]. split; [exact Hbuf|].
+    intros c' y Hf. change (hist_of _) with (hist_of st). destruct (N.eq_dec c' c) as [->|Hne].
+    + rewrite find_put_client_same in Hf. injection Hf as <-. rewrite Et. apply Hupd; auto. exact (Hcl c x Ec).
+    + rewrite find_put_client_other in Hf by exact Hne. exact (Hcl c' y Hf).
+  - intros T tb Hf. pose proof (count_put_client T (tb_id tb) c x' _ Gn) as H. rewrite Ec, Hh in H.
+    assert (count_subs T (tb_id tb) (put_client c x' (st_clients st)) = count_subs T (tb_id tb) (st_clients st)) as -> by lia.
+    apply Gr, Hf.
+  - destruct Gi as [Gi1 Gi2]. split; [exact Gi1|]. intros c' y sb Hf Hs.
+    destruct (N.eq_dec c' c) as [->|Hne].
+    + rewrite find_put_client_same in Hf. injection Hf as <-. destruct (Hb sb Hs) as (sb0 & Hs0 & <-). eapply Gi2; eauto.
+    + rewrite find_put_client_other in Hf by exact Hne. eapply Gi2; eauto.
+  - apply nodup_put_client, Gn.
+Qed.
+
+Lemma ginv_next st c : ginv st -> ginv (fst (do_next st c)).
+Proof.
+  intros G. unfold do_next. destruct (find_client c (st_clients st)) as [x|] eqn:Ec; [|exact G].
+  destruct (c_sub x) as [sb|] eqn:Es; [|exact G].
+  assert (Hinc : incr (map item_idx (proj (c_ts x) (st_log st)))) by (apply incr_proj, G).
+  assert (Hbnd : forall r, Forall (fun b => r < b_idx b <= st_hi st) (st_log st) -> 1 <= r ->
+                           forall it', In it' (proj (c_ts x) (st_log st)) -> 1 <= item_idx it' <= st_hi st).
+  { intros r Hall Hr it' Hit'. apply proj_item_batch in Hit' as (b & Hb & ->).
+    rewrite Forall_forall in Hall. specialize (Hall b Hb). lia. }
+  destruct (s_status sb) eqn:Est.
+  - (* open *)
+    destruct (drop_skipped (s_snap sb) (s_pre sb)) as [|it pre'] eqn:Epre.
+    + match goal with |- context [first_new _ (skipn _ ?items) _] => set (its := items) end.
+      destruct (first_new (s_snap sb) (skipn (s_off sb) its) (s_off sb)) as [[it off']|] eqn:Efn; [|exact G].
       cbn [fst]. eapply ginv_put; eauto.
-      + intros T'. unfold has_sub_on. cbn [c_sub]. rewrite Es0. reflexivity.
-      + intros r _ _ (Hi & Hep & Hz & Hs & Hk & _). unfold cinv, knows.
-        cbn [c_idx c_epoch c_view c_h c_sub c_ts]. fold idx.
-        split; [exact Hi|]. split; [exact Hep|]. split; [exact Hz|]. split; [|split; [exact Hk|exact I]].
-        unfold initial_handler. destruct (N.eqb idx 0) eqn:E; [|intros ? H; discriminate].
-        intros _ _. apply N.eqb_eq, E.
-    - (* resume *)
-      destruct Hpath as (Hp & _ & _); [discriminate|].
-      destruct (negb (N.eqb idx 0) && head_has_index (buf_items T (st_bufs st)) idx) eqn:Er;
-        [|destruct (find_snap T (st_cache st)); discriminate].
-      apply andb_true_iff in Er as [Er1 Er2]. apply negb_true_iff, N.eqb_neq in Er1.
-      cbn [fst]. change (match find_buf T (st_bufs st) with
-                         | Some b => TBuf T (S (tb_refs b)) (tb_items b) (tb_old b)
-                         | None => TBuf T 1 [] false
-                         end) with (attach_buf st T).
-      eapply ginv_attach with (x0 := x0); eauto; [reflexivity|].
-      intros pub r Hlog Hr Hall (X & HX) Hc. fold T in HX. split.
-      + eapply (cinv_resume (hist_of st)); eauto; fold T.
-        * unfold attach_buf. destruct (find_buf T (st_bufs st)) as [b|] eqn:E; cbn [tb_old]; auto.
-        * intros it Hit. apply proj_item_batch in Hit as (b & Hb & ->).
-          rewrite Forall_forall in Hall. specialize (Hall b Hb). lia.
-        * rewrite attach_items. exact Er2.
-      + intros T' sn Hf. left; exact Hf.
-    - (* cached snapshot *)
-      destruct Hpath as (Hp & _ & _); [discriminate|].
-      destruct (negb (N.eqb idx 0) && head_has_index (buf_items T (st_bufs st)) idx) eqn:Er; [discriminate|].
-      destruct (find_snap T (st_cache st)) as [sn|] eqn:Ef; [|discriminate].
-      cbn [fst]. change (match find_buf T (st_bufs st) with
-                         | Some b => TBuf T (S (tb_refs b)) (tb_items b) (tb_old b)
-                         | None => TBuf T 1 [] false
-                         end) with (attach_buf st T).
-      eapply ginv_attach with (x0 := x0); eauto; [reflexivity|].
-      intros pub r Hlog Hr Hall (X & HX) Hc. fold T in HX. split; [|intros T' sn' Hf; left; exact Hf].
-      destruct G as [_ _ _ _ _ _ _ Gc _]. destruct (Gc T sn Ef) as (Hl & body & A & B2 & D & s & Hit & Hso).
-      destruct Hl as (b & Eb & Hob & Hoff).
-      assert (Hit' : tb_items (attach_buf st T) = tb_items b) by (unfold attach_buf; rewrite Eb; reflexivity).
-      eapply cinv_snapshot; eauto; fold T.
-      * unfold attach_buf. rewrite Eb. exact Hob.
-      * rewrite Hit'. exact Hoff.
-      * eapply (snapok_ext (hist_of st)); [reflexivity|reflexivity|reflexivity| |exact Hso].
-        unfold tail. rewrite Eb. cbn [ob_items]. rewrite Hit'. reflexivity.
-    - (* fresh snapshot *)
-      destruct Hpath as (Hp & Hqle & Hqhi); [discriminate|].
-      destruct (negb (N.eqb idx 0) && head_has_index (buf_items T (st_bufs st)) idx) eqn:Er; [discriminate|].
-      destruct (find_snap T (st_cache st)) as [sn|] eqn:Ef; [discriminate|].
-      cbn [fst]. change (match find_buf T (st_bufs st) with
-                         | Some b => TBuf T (S (tb_refs b)) (tb_items b) (tb_old b)
-                         | None => TBuf T 1 [] false
-                         end) with (attach_buf st T).
-      eapply ginv_attach with (x0 := x0); eauto; [reflexivity|].
-      intros pub r Hlog Hr Hall (X & HX) Hc. fold T in HX.
-      assert (Hgap' : gf = true -> st_queue st = []) by (intros Hgf; apply Hgap; [exact Hgf|reflexivity]).
-      destruct (build_snapok st T qidx pub X (attach_buf st T) G Hlog HX Hqle Hqhi Hgap') as [Hb Hso].
-      assert (Htold : tb_old (attach_buf st T) = false).
-      { unfold attach_buf. destruct (find_buf T (st_bufs st)) as [b|] eqn:E; cbn [tb_old]; auto. }
-      split.
-      + rewrite Hb. eapply cinv_snapshot; eauto. cbn [sn_items]. reflexivity.
-      + intros T' sn' Hf. rewrite Hb in Hf. destruct (st_cache_on st); [|left; exact Hf].
-        destruct (ts_eqb T' T) eqn:E.
-        * apply ts_eqb_eq in E; subst T'. right. split; [reflexivity|].
-          rewrite (find_put_snap_same (Snap T _ _)) in Hf. injection Hf as <-.
-          split; [exists (attach_buf st T); auto|]. eexists _, _, _, _, _. split; [reflexivity|exact Hso].
-        * apply ts_eqb_neq in E. left. rewrite find_put_snap_other in Hf by exact E. exact Hf.
-  Qed.
+      * unfold handle. destruct (c_h x), it; reflexivity.
+      * intros T id. unfold has_sub_on, handle. rewrite Es. destruct (c_h x), it; reflexivity.
+      * intros sb'. unfold handle. destruct (c_h x), it; cbn [c_sub]; intros H; injection H as <-; exists sb; auto.
+      * intros r Hr Hall Hc. change (st_epoch st) with (h_epoch (hist_of st)).
+        assert (Hpre : s_pre sb = []).
+        { destruct Hc as (_ & _ & _ & _ & _ & Hsub). rewrite Es, Est in Hsub.
+          destruct Hsub as [_ [(Hp & _)|(Hs0 & acc & rest & A0 & B0 & D0 & s0 & [[_ Hp]|(_ & _ & Hp)] & _)]]; [exact Hp| |];
+            rewrite Hs0, drop_skipped_zero, Hp in Epre; [destruct rest; discriminate|discriminate]. }
+        eapply cinv_deliver_buf; eauto.
+        -- apply (Hbnd r); [exact Hall|lia].
+        -- intros tb Hob Hid. unfold its. rewrite Hob, Hid, N.eqb_refl. reflexivity.
+    + cbn [fst]. eapply ginv_put; eauto.
+      * unfold handle. destruct (c_h x), it; reflexivity.
+      * intros T id. unfold has_sub_on, handle. rewrite Es. destruct (c_h x), it; reflexivity.
+      * intros sb'. unfold handle. destruct (c_h x), it; cbn [c_sub]; intros H; injection H as <-; exists sb; auto.
+      * intros r Hr Hall Hc. change (st_epoch st) with (h_epoch (hist_of st)).
+        eapply cinv_deliver_pre; eauto. apply (Hbnd r); [exact Hall|lia].
+  - (* force closed *)
+    destruct (c_rpc x); [|exact G]. cbn [fst]. eapply ginv_put; eauto.
+    + intros T id. unfold has_sub_on. cbn [c_sub c_ts]. rewrite Es. reflexivity.
+    + cbn [c_sub]. intros sb' H. injection H as <-. exists sb. auto.
+    + intros r Hr Hall (Hi & Hep & Hz & Hs & Hk & Hsub). unfold cinv, knows.
+      cbn [c_idx c_epoch c_view c_h c_sub c_ts]. rewrite Est.
+      split; [lia|]. split; [exact Hep|]. split; [intros _ k; reflexivity|]. split; [reflexivity|].
+      split; [left; reflexivity|exact I].
+  - (* closed after an ACL change *)
+    destruct (c_rpc x); [|exact G]. cbn [fst]. eapply ginv_put; eauto.
+    + intros T id. unfold has_sub_on. cbn [c_sub c_ts]. rewrite Es. reflexivity.
+    + cbn [c_sub]. intros sb' H. injection H as <-. exists sb. auto.
+    + intros r Hr Hall (Hi & Hep & Hz & Hs & Hk & Hsub). unfold cinv, knows.
+      cbn [c_idx c_epoch c_view c_h c_sub c_ts]. rewrite Est.
+      split; [lia|]. split; [exact Hep|]. split; [intros _ k; reflexivity|]. split; [reflexivity|].
+      split; [left; reflexivity|exact I].
+Qed.
 
-  Lemma release_hist T st :
-    hist_of (release T st) = hist_of st /\ st_clients (release T st) = st_clients st /\
-    st_cache_on (release T st) = st_cache_on st /\ st_store (release T st) = st_store st.
-  Proof.
-    unfold release. destruct (find_buf T (st_bufs st)) as [b|]; [|auto].
-    destruct (tb_refs b) as [|[|n]]; auto.
-  Qed.
+(* ---------------------------------------------------------------- subscribe *)
 
-  Lemma unsub_hist st c : hist_of (fst (do_unsub st c)) = hist_of st.
-  Proof.
-    unfold do_unsub. destruct (find_client c (st_clients st)) as [x|]; [|reflexivity].
-    destruct (c_sub x); [|reflexivity]. cbn [fst]. destruct (release_hist (c_ts x)
-      (with_clients st (put_client c (drop_sub x) (st_clients st)))) as [H _]. rewrite H. reflexivity.
-  Qed.
+Lemma put_put_client c x y l : put_client c y (put_client c x l) = put_client c y l.
+Proof.
+  induction l as [|[c' z] r IH]; cbn [put_client].
+  - rewrite N.eqb_refl. reflexivity.
+  - destruct (N.eqb c c') eqn:E; cbn [put_client]; rewrite ?N.eqb_refl, ?E; [reflexivity|]. rewrite IH. reflexivity.
+Qed.
 
-  Lemma unsub_client st c x :
-    find_client c (st_clients st) = Some x ->
-    find_client c (st_clients (fst (do_unsub st c))) = Some (drop_sub x).
-  Proof.
-    intros Ec. unfold do_unsub. rewrite Ec. destruct (c_sub x) eqn:Es; cbn [fst].
-    - destruct (release_hist (c_ts x) (with_clients st (put_client c (drop_sub x) (st_clients st)))) as (_ & H & _).
-      rewrite H. cbn [with_clients st_clients]. apply find_put_client_same.
-    - rewrite Ec. f_equal. destruct x; cbn in *; subst; reflexivity.
-  Qed.
+Lemma last_item_spec items :
+  match last_item items with
+  | Some it => exists l, items = l ++ [it]
+  | None => items = []
+  end.
+Proof.
+  unfold last_item. induction items as [|a l _] using rev_ind; [reflexivity|].
+  rewrite map_app. cbn [map]. rewrite last_last. exists l. reflexivity.
+Qed.
 
-  Lemma forallb_touches T q log :
-    forallb (fun b => negb (touches T b) || N.leb (b_idx b) q) log = true ->
-    Forall (fun b => touches T b = true -> b_idx b <= q) log.
-  Proof.
-    intros H. rewrite forallb_forall in H. rewrite Forall_forall. intros b Hb Ht.
-    specialize (H b Hb). rewrite Ht in H. cbn in H. apply N.leb_le, H.
-  Qed.
+Lemma splice_len items s :
+  (forall it, In it items -> item_idx it <= s) -> splice_off items s = List.length items.
+Proof.
+  intros H. unfold splice_off. pose proof (last_item_spec items) as Hl.
+  destruct (last_item items) as [[j evs| |]|]; try reflexivity.
+  destruct Hl as (l & ->). specialize (H (IEv j evs)). rewrite in_app_iff in H.
+  specialize (H (or_intror (or_introl eq_refl))). cbn [item_idx] in H.
+  destruct (N.ltb s j) eqn:E; [apply N.ltb_lt in E; lia|reflexivity].
+Qed.
 
-  Lemma sub_core_clients st c x0 qidx :
-    fst (do_subscribe_core (with_clients st (put_client c x0 (st_clients st))) c x0 qidx)
-    = fst (do_subscribe_core st c x0 qidx).
-  Proof.
-    unfold do_subscribe_core, sub_path.
-    cbn [with_clients st_store st_queue st_bufs st_cache st_clients st_cache_on st_hi st_log st_base st_epoch].
-    destruct (snd (c_ts x0)); [|destruct (wild_ok (fst (c_ts x0))); [|cbn [fst]; rewrite put_put_client; reflexivity]].
-    all: destruct (negb (N.eqb (c_idx x0) 0) && head_has_index (buf_items (c_ts x0) (st_bufs st)) (c_idx x0));
-      [cbn [fst]; rewrite put_put_client; reflexivity|].
-    all: destruct (find_snap (c_ts x0) (st_cache st)); cbn [fst]; rewrite put_put_client; reflexivity.
-  Qed.
+Lemma head_index_spec items i :
+  head_has_index items i = true -> exists l evs, items = l ++ [IEv i evs].
+Proof.
+  unfold head_has_index. pose proof (last_item_spec items) as Hl.
+  destruct (last_item items) as [[j evs| |]|]; try discriminate.
+  destruct Hl as (l & ->). intros E. apply N.eqb_eq in E. subst j. eauto.
+Qed.
 
-  Lemma ginv_subscribe st c T tok rpc qidx :
-    ginv gf st ->
-    step_ok st (LSubscribe c T tok rpc qidx) = true ->
-    restore_ok st (LSubscribe c T tok rpc qidx) = true ->
-    (gf = true -> gapfree_ok st (LSubscribe c T tok rpc qidx) = true) ->
-    ginv gf (fst (do_subscribe st c T tok rpc qidx)).
-  Proof.
-    intros G Hok Hres Hgap. unfold do_subscribe.
-    cbn [step_ok restore_ok gapfree_ok] in Hok, Hres, Hgap. unfold sub_ts, sub_idx, pre_sub_state in *.
-    destruct (find_client c (st_clients st)) as [x|] eqn:Ec.
-    - pose proof (ginv_unsub st c G) as G1. pose proof (unsub_hist st c) as Hh.
-      set (st1 := fst (do_unsub st c)) in *.
-      assert (Hlog : st_log st1 = st_log st) by (injection Hh; auto).
-      assert (Hhi : st_hi st1 = st_hi st) by (injection Hh; auto).
-      assert (Hq : st_queue st1 = st_queue st) by (injection Hh; auto).
-      apply ginv_sub_core; auto.
-      + apply unsub_client, Ec.
-      + cbn [drop_sub c_ts c_idx]. split; [|split].
-        * rewrite Hlog, Hhi. destruct (snd (c_ts x)); [|destruct (wild_ok (fst (c_ts x))); [|exact I]].
-          all: apply andb_true_iff in Hok as [H1 H2]; split; [apply forallb_touches, H1|apply N.leb_le, H2].
-        * intros b Eb. rewrite Eb in Hres. apply negb_true_iff, Hres.
-        * intros Hgf Hp. specialize (Hgap Hgf). rewrite Hp in Hgap. rewrite Hq.
-          destruct (st_queue st); [reflexivity|discriminate].
-    - set (x0 := Client T tok rpc [] 0 (HSnap []) None (st_epoch st)).
-      rewrite <- (sub_core_clients st c x0 qidx).
-      assert (Hu : fst (do_unsub st c) = st) by (unfold do_unsub; rewrite Ec; reflexivity).
-      rewrite Hu in *.
-      apply ginv_sub_core.
-      + apply ginv_add_idle; assumption.
-      + cbn [with_clients st_clients]. apply find_put_client_same.
-      + reflexivity.
-      + cbn [x0 c_ts c_idx]. split; [|split].
-        * cbn [with_clients st_log st_hi]. destruct (snd T); [|destruct (wild_ok (fst T)); [|exact I]].
-          all: apply andb_true_iff in Hok as [H1 H2]; split; [apply forallb_touches, H1|apply N.leb_le, H2].
-        * cbn [with_clients st_bufs]. intros b Eb. rewrite Eb in Hres. apply negb_true_iff, Hres.
-        * intros Hgf Hp. specialize (Hgap Hgf).
-          change (sub_path (with_clients st (put_client c x0 (st_clients st))) T 0) with (sub_path st T 0) in Hp.
-          rewrite Hp in Hgap. cbn [with_clients st_queue]. destruct (st_queue st); [reflexivity|discriminate].
-  Qed.
+Lemma snap_events_spec T m idx :
+  ievs (snap_events T m idx) = map row_ev (rows_of T m) /\ Forall is_iev (snap_events T m idx).
+Proof.
+  unfold snap_events. destruct (per_row (fst T)).
+  - induction (rows_of T m) as [|kv l IH]; cbn [map ievs flat_map]; [split; [reflexivity|constructor]|].
+    destruct IH as [IH1 IH2]. split.
+    + fold (ievs (map (fun kv0 => IEv idx [Ev (fst kv0) (Some (snd kv0))]) l)). rewrite IH1. reflexivity.
+    + constructor; [exact I|exact IH2].
+  - destruct (rows_of T m) as [|kv l]; [split; [reflexivity|constructor]|].
+    cbn [ievs flat_map]. rewrite app_nil_r. split; [reflexivity|]. constructor; [exact I|constructor].
+Qed.
 
-  Theorem ginv_step st l :
-    ginv gf st ->
-    step_ok st l = true -> events_ok st l = true -> restore_ok st l = true ->
-    (gf = true -> gapfree_ok st l = true) ->
-    ginv gf (fst (step st l)).
-  Proof.
-    intros G Hok Hev Hres Hgap. destruct l as [b| |c T tok rpc qidx|c|c|rows hi|T]; cbn [step fst].
-    - apply ginv_commit; [exact G|exact Hok|]. cbn [events_ok] in Hev. destruct (b_silent b); [reflexivity|discriminate].
-    - apply ginv_publish, G.
-    - apply ginv_subscribe; assumption.
-    - apply ginv_next, G.
-    - apply ginv_unsub, G.
-    - cbn [restore_ok step_ok] in *. apply ginv_restore; [exact G| |exact Hok].
-      destruct (st_queue st); [reflexivity|discriminate].
-    - apply ginv_evict, G.
-  Qed.
+Lemma in_find_client c y l : NoDup (map fst l) -> In (c, y) l -> find_client c l = Some y.
+Proof.
+  induction l as [|[c' z] r IH]; cbn [map fst find_client In]; intros Hnd; [intros []|].
+  inversion Hnd as [|? ? Hni Hr]; subst. intros [H|H].
+  - injection H as -> ->. rewrite N.eqb_refl. reflexivity.
+  - destruct (N.eqb c c') eqn:E; [|apply IH; assumption].
+    apply N.eqb_eq in E; subst. exfalso. apply Hni. apply in_map_iff. exists (c', y). auto.
+Qed.
 
-  (* the four assumptions along a whole schedule *)
-  Definition sched_ok (st : state) (ls : list label) : Prop :=
-    valid_from st ls = true /\ all_from events_ok st ls = true /\ all_from restore_ok st ls = true /\
-    (gf = true -> all_from gapfree_ok st ls = true).
+Lemma count_zero T id l :
+  NoDup (map fst l) ->
+  (forall c y sb, find_client c l = Some y -> c_sub y = Some sb -> s_buf sb <> id) ->
+  count_subs T id l = 0%nat.
+Proof.
+  intros Hnd H. assert (forall c y, In (c, y) l -> has_sub_on T id y = false) as Hall.
+  { intros c y Hin. unfold has_sub_on. destruct (c_sub y) as [sb|] eqn:Es; [|reflexivity].
+    specialize (H c y sb (in_find_client _ _ _ Hnd Hin) Es). apply N.eqb_neq in H.
+    rewrite N.eqb_sym, H. apply andb_false_r. }
+  clear H Hnd. induction l as [|[c y] r IH]; cbn [count_subs]; [reflexivity|].
+  rewrite (Hall c y) by (left; reflexivity). rewrite IH; [reflexivity|].
+  intros c' y' Hin. apply (Hall c' y'). right. exact Hin.
+Qed.
 
-  Lemma sched_ok_cons st l ls :
-    sched_ok st (l :: ls) ->
-    (step_ok st l = true /\ events_ok st l = true /\ restore_ok st l = true /\
-     (gf = true -> gapfree_ok st l = true)) /\ sched_ok (fst (step st l)) ls.
-  Proof.
-    intros (H1 & H2 & H3 & H4). cbn [valid_from all_from] in *.
-    apply andb_true_iff in H1 as [H1a H1b]. apply andb_true_iff in H2 as [H2a H2b].
-    apply andb_true_iff in H3 as [H3a H3b].
-    split; [|split; [exact H1b|split; [exact H2b|split; [exact H3b|]]]].
-    - repeat split; auto. intros Hgf. specialize (H4 Hgf). apply andb_true_iff in H4. apply H4.
-    - intros Hgf. specialize (H4 Hgf). apply andb_true_iff in H4. apply H4.
-  Qed.
+(* an idle client that knows nothing can be added *)
+Lemma ginv_add_idle st c T tok rpc :
+  ginv st -> find_client c (st_clients st) = None ->
+  ginv (with_clients st (put_client c (Client T tok rpc [] 0 (HSnap []) None (st_epoch st)) (st_clients st))).
+Proof.
+  intros [Gnd Gst Ginc Ghi Gq Gh Gr Gi Gc Gn] Ec.
+  destruct Gh as (pub & r & Hlog & Hr & Hall & Hbuf & Hcl).
+  constructor; cbn [with_clients st_store st_log st_base st_hi st_queue st_bufs st_clients st_cache st_epoch st_nbuf]; auto.
+  - exists pub, r. split; [exact Hlog|]. split; [exact Hr|]. split; [exact Hall|]. split; [exact Hbuf|].
+    intros c' y Hf. change (hist_of _) with (hist_of st). destruct (N.eq_dec c' c) as [->|Hne].
+    + rewrite find_put_client_same in Hf. injection Hf as <-. unfold cinv, knows.
+      cbn [c_idx c_epoch c_view c_h c_sub c_ts hist_of h_hi h_epoch].
+      split; [lia|]. split; [lia|]. split; [intros _ k; reflexivity|]. split; [reflexivity|].
+      split; [left; reflexivity|exact I].
+    + rewrite find_put_client_other in Hf by exact Hne. exact (Hcl c' y Hf).
+  - intros T' tb Hf.
+    pose proof (count_put_client T' (tb_id tb) c (Client T tok rpc [] 0 (HSnap []) None (st_epoch st)) _ Gn) as H.
+    rewrite Ec in H.
+    change (has_sub_on T' (tb_id tb) (Client T tok rpc [] 0 (HSnap []) None (st_epoch st))) with false in H.
+    cbn [b2n] in H. specialize (Gr T' tb Hf). lia.
+  - destruct Gi as [Gi1 Gi2]. split; [exact Gi1|]. intros c' y sb Hf Hs.
+    destruct (N.eq_dec c' c) as [->|Hne].
+    + rewrite find_put_client_same in Hf. injection Hf as <-. discriminate.
+    + rewrite find_put_client_other in Hf by exact Hne. eapply Gi2; eauto.
+  - apply nodup_put_client, Gn.
+Qed.
 
-  Theorem ginv_run st ls : ginv gf st -> sched_ok st ls -> ginv gf (run_from st ls).
-  Proof.
-    revert st. induction ls as [|l ls IH]; intros st G Hs; [exact G|].
-    apply sched_ok_cons in Hs as [(H1 & H2 & H3 & H4) Hs']. cbn [run_from fold_left].
-    apply IH; [|exact Hs']. apply ginv_step; assumption.
-  Qed.
-End Preserve.
+(* the request's view of the world, as [step_ok] states it *)
+Definition sub_env_ok (st : state) (T : ts) (qidx : N) : Prop :=
+  match snd T, wild_ok (fst T) with
+  | None, false => True
+  | _, _ => Forall (fun b => touches T b = true -> b_idx b <= qidx) (st_log st) /\ qidx <= st_hi st
+  end.
+
+Lemma proj_le T log q :
+  Forall (fun b => touches T b = true -> b_idx b <= q) log ->
+  Forall (fun it => item_idx it <= q) (proj T log).
+Proof.
+  induction 1 as [|b l Hb _ IH]; cbn [proj flat_map]; [constructor|]. fold (proj T l).
+  apply Forall_app. split; [|exact IH].
+  unfold touches in Hb. destruct (evs_for T (b_evs b)); [constructor|].
+  constructor; [cbn [item_idx]; apply Hb; reflexivity|constructor].
+Qed.
+
+Lemma sub_path_not_err st T idx :
+  sub_path st T idx <> PErr ->
+  sub_path st T idx =
+    (if negb (N.eqb idx 0) && head_has_index (buf_items T (st_bufs st)) idx then PResume
+     else match find_snap T (st_cache st) with Some _ => PCache | None => PBuild end) /\
+  (snd T = None -> wild_ok (fst T) = true).
+Proof.
+  unfold sub_path. destruct (snd T); [intros _; split; [reflexivity|discriminate]|].
+  destruct (wild_ok (fst T)); [intros _; split; reflexivity|congruence].
+Qed.
+
+Lemma attach_items st T : tb_items (attach_buf st T) = buf_items T (st_bufs st).
+Proof. unfold attach_buf, buf_items. destruct (find_buf T (st_bufs st)); reflexivity. Qed.
+
+Lemma ginv_attach st c x0 x1 sb1 cache' :
+  ginv st -> find_client c (st_clients st) = Some x0 -> c_sub x0 = None ->
+  c_ts x1 = c_ts x0 -> c_sub x1 = Some sb1 -> s_buf sb1 = tb_id (attach_buf st (c_ts x0)) ->
+  (forall pub r,
+      st_log st = pub ++ live_queue st -> 1 <= r <= st_hi st ->
+      Forall (fun b => r < b_idx b <= st_hi st) (st_log st) ->
+      (exists X, proj (c_ts x0) pub = X ++ tb_items (attach_buf st (c_ts x0))) ->
+      cinv (hist_of st) (find_buf (c_ts x0) (st_bufs st)) r x0 ->
+      cinv (hist_of st) (Some (attach_buf st (c_ts x0))) r x1 /\
+      (forall T' sn, find_snap T' cache' = Some sn ->
+                     find_snap T' (st_cache st) = Some sn \/
+                     (T' = c_ts x0 /\ cacheinv (hist_of st) T' (Some (attach_buf st (c_ts x0))) sn))) ->
+  ginv (State (st_store st) (st_queue st) (put_buf (attach_buf st (c_ts x0)) (st_bufs st)) cache'
+              (put_client c x1 (st_clients st)) (st_cache_on st) (st_epoch st) (next_nbuf st (c_ts x0))
+              (st_hi st) (st_log st) (st_base st)).
+Proof.
+  intros G Ec Es0 Et Es1 Eid Hupd. pose proof G as [Gnd Gst Ginc Ghi Gq Gh Gr Gi Gc Gn].
+  destruct Gh as (pub & r & Hlog & Hr & Hall & Hbuf & Hcl). destruct Gi as [Gi1 Gi2].
+  set (T := c_ts x0) in *. set (tb := attach_buf st T) in *.
+  assert (Hts : tb_ts tb = T) by (unfold tb, attach_buf; destruct (find_buf T (st_bufs st)); reflexivity).
+  assert (Hsame : forall T', find_buf T' (put_buf tb (st_bufs st)) =
+                             if ts_eqb T' T then Some tb else find_buf T' (st_bufs st)).
+  { intros T'. destruct (ts_eqb T' T) eqn:E.
+    - apply ts_eqb_eq in E; subst T'. rewrite <- Hts. apply find_put_buf_same.
+    - apply ts_eqb_neq in E. apply find_put_buf_other. rewrite Hts. exact E. }
+  assert (HX : exists X, proj T pub = X ++ tb_items tb).
+  { unfold tb, attach_buf. destruct (find_buf T (st_bufs st)) as [b|] eqn:E; cbn [tb_items].
+    - apply (Hbuf T b E).
+    - exists (proj T pub). rewrite app_nil_r. reflexivity. }
+  destruct (Hupd pub r Hlog Hr Hall HX (Hcl c x0 Ec)) as [Hc1 Hcache].
+  assert (Hlive : forall off id h, buf_live (find_buf T (st_bufs st)) off id ->
+                                   buf_live (Some tb) off id /\
+                                   tail h T (Some tb) off = tail h T (find_buf T (st_bufs st)) off).
+  { intros off id h Hl. destruct Hl as (b & Eb & Hoff & Hid). eapply live_same; [exact Eb|reflexivity| | |].
+    - unfold tb, attach_buf. rewrite Eb. reflexivity.
+    - unfold tb, attach_buf. rewrite Eb. reflexivity.
+    - exists b. auto. }
+  assert (Hx0 : forall T' id, has_sub_on T' id x0 = false) by (intros; unfold has_sub_on; rewrite Es0; reflexivity).
+  assert (Hx1 : forall T' id, has_sub_on T' id x1 = ts_eqb T' T && N.eqb id (tb_id tb))
+    by (intros; unfold has_sub_on; rewrite Es1, Et, Eid; reflexivity).
+  assert (Hnb : st_nbuf st <= next_nbuf st T /\ tb_id tb < next_nbuf st T).
+  { unfold next_nbuf, tb, attach_buf. destruct (find_buf T (st_bufs st)) as [b|] eqn:E; cbn [tb_id].
+    - split; [lia|]. eapply Gi1; eauto.
+    - lia. }
+  constructor; cbn [st_store st_log st_base st_hi st_queue st_bufs st_clients st_cache st_epoch st_nbuf]; auto.
+  - exists pub, r. split; [exact Hlog|]. split; [exact Hr|]. split; [exact Hall|]. split.
+    + intros T' tb0 Hf. rewrite Hsame in Hf. destruct (ts_eqb T' T) eqn:E.
+      * apply ts_eqb_eq in E; subst T'. injection Hf as <-. exact HX.
+      * eapply Hbuf; eauto.
+    + intros c' y Hf. change (hist_of _) with (hist_of st). destruct (N.eq_dec c' c) as [->|Hne].
+      * rewrite find_put_client_same in Hf. injection Hf as <-. rewrite Et, Hsame. fold T.
+        rewrite ts_eqb_refl. exact Hc1.
+      * rewrite find_put_client_other in Hf by exact Hne. rewrite Hsame.
+        destruct (ts_eqb (c_ts y) T) eqn:E; [|exact (Hcl c' y Hf)].
+        apply ts_eqb_eq in E. pose proof (Hcl c' y Hf) as Hy. rewrite E in Hy.
+        eapply (cinv_ext (hist_of st)); [reflexivity|reflexivity|reflexivity|reflexivity| |exact Hy].
+        intros sby _ _ Hl. rewrite E. apply Hlive, Hl.
+  - intros T' tb0 Hf. rewrite Hsame in Hf. pose proof (count_put_client T' (tb_id tb0) c x1 _ Gn) as H.
+    rewrite Ec, Hx0, Hx1 in H. cbn [b2n] in H. destruct (ts_eqb T' T) eqn:E.
+    + apply ts_eqb_eq in E; subst T'. injection Hf as <-. rewrite N.eqb_refl in H. cbn [andb b2n] in H.
+      unfold tb, attach_buf in *. destruct (find_buf T (st_bufs st)) as [b|] eqn:Eb; cbn [tb_refs tb_id] in *.
+      * specialize (Gr T b Eb). lia.
+      * assert (count_subs T (st_nbuf st) (st_clients st) = 0%nat) as Hz0.
+        { apply count_zero; [exact Gn|]. intros c' y sb Hf' Hs'. specialize (Gi2 c' y sb Hf' Hs'). lia. }
+        lia.
+    + cbn [andb b2n] in H. specialize (Gr T' tb0 Hf). lia.
+  - split.
+    + intros T' tb0 Hf. rewrite Hsame in Hf. destruct (ts_eqb T' T) eqn:E.
+      * injection Hf as <-. apply Hnb.
+      * specialize (Gi1 T' tb0 Hf). lia.
+    + intros c' y sb Hf Hs. destruct (N.eq_dec c' c) as [->|Hne].
+      * rewrite find_put_client_same in Hf. injection Hf as <-. rewrite Es1 in Hs. injection Hs as <-.
+        rewrite Eid. apply Hnb.
+      * rewrite find_put_client_other in Hf by exact Hne. specialize (Gi2 c' y sb Hf Hs). lia.
+  - intros T' sn Hf. change (hist_of _) with (hist_of st). rewrite Hsame.
+    destruct (Hcache T' sn Hf) as [Hf0|[-> Hc]].
+    + pose proof (Gc T' sn Hf0) as Hc. destruct (ts_eqb T' T) eqn:E; [|exact Hc].
+      apply ts_eqb_eq in E; subst T'.
+      eapply (cacheinv_ext (hist_of st)); [reflexivity|reflexivity|reflexivity| |exact Hc].
+      intros Hl. apply Hlive, Hl.
+    + fold T. rewrite ts_eqb_refl. exact Hc.
+  - apply nodup_put_client, Gn.
+Qed.
+
+(* the resumed subscription: the head of the topic buffer carries the client's index *)
+Lemma cinv_resume h ob0 tb r x0 pub X :
+  incr (map item_idx (proj (c_ts x0) (h_log h))) ->
+  h_log h = pub ++ h_lq h -> proj (c_ts x0) pub = X ++ tb_items tb ->
+  (forall it, In it (proj (c_ts x0) (h_log h)) -> r < item_idx it) ->
+  c_idx x0 <> 0 -> head_has_index (tb_items tb) (c_idx x0) = true ->
+  cinv h ob0 r x0 ->
+  cinv h (Some tb) r
+       (Client (c_ts x0) (c_tok x0) (c_rpc x0) (c_view x0) (c_idx x0) (initial_handler (c_idx x0))
+               (Some (Sub Open [] (List.length (tb_items tb)) (tb_id tb) 0)) (c_epoch x0)).
+Proof.
+  intros Hinc Hlog HX Hr Hne Hhead (Hi & Hep & Hz & Hs & Hk & _).
+  apply head_index_spec in Hhead as (l & evs & Hitems).
+  set (T := c_ts x0) in *. set (P := X ++ tb_items tb).
+  assert (Hsplit : proj T (h_log h) = P ++ proj T (h_lq h)).
+  { rewrite Hlog, proj_app, HX. reflexivity. }
+  assert (HPne : P <> []).
+  { unfold P. rewrite Hitems. intros H. apply app_eq_nil in H as [_ H]. apply app_eq_nil in H as [_ H]. discriminate. }
+  assert (HPl : lastidx P 0 = c_idx x0).
+  { unfold P. rewrite Hitems, app_assoc, lastidx_app_single. reflexivity. }
+  pose proof Hinc as Hinc'. rewrite Hsplit in Hinc'.
+  destruct (incr_last_bounds _ _ _ Hinc' HPne HPl) as [HPle HQgt].
+  assert (Hih : initial_handler (c_idx x0) = HResume).
+  { unfold initial_handler. apply N.eqb_neq in Hne. rewrite Hne. reflexivity. }
+  unfold cinv, knows. cbn [c_idx c_epoch c_view c_h c_sub c_ts s_status]. fold T.
+  split; [exact Hi|]. split; [exact Hep|]. split; [exact Hz|].
+  split; [rewrite Hih; intros ? H; discriminate|]. split; [exact Hk|].
+  split; [exists tb; cbn [s_off s_buf]; repeat split; auto; lia|]. left.
+  cbn [s_pre s_off s_snap c_h c_epoch c_ts c_view c_idx]. fold T.
+  split; [reflexivity|]. split; [right; exact Hih|].
+  destruct Hk as [Hk|[[He (A & D & Hc)]|[_ Hle]]]; [contradiction| |].
+  2: { (* a view of a replaced store: its index is below every index of the log *)
+    exfalso. assert (In (IEv (c_idx x0) evs) (proj T (h_log h))) as Hin.
+    { rewrite Hsplit. unfold P. rewrite Hitems, !in_app_iff. left; right; right. left; reflexivity. }
+    specialize (Hr _ Hin). cbn [item_idx] in Hr. lia. }
+  split; [exact He|]. split; [lia|]. fold T in Hc. destruct Hc as [Hsp Hv Hle Hgt Hss].
+  rewrite Hsplit in Hsp.
+  destruct (split_unique (c_idx x0) _ _ _ _ HPle HQgt Hle Hgt Hsp) as [EP EQ].
+  exists A, D, []. split; [|split; [|constructor]].
+  - constructor; auto. rewrite Hsplit, EP, EQ. reflexivity.
+  - unfold tail. cbn [ob_items app]. rewrite skipn_all, EQ. reflexivity.
+Qed.
+
+(* the subscription that starts with a snapshot (fresh or cached) *)
+Lemma cinv_snapshot h ob0 tb r x0 sn body A B2 D s :
+  (sn_off sn <= List.length (tb_items tb))%nat ->
+  sn_items sn = body ++ [IEos s] ->
+  snapok h (c_ts x0) (Some tb) [] body (sn_off sn) A B2 D s ->
+  cinv h ob0 r x0 ->
+  cinv h (Some tb) r
+       (Client (c_ts x0) (c_tok x0) (c_rpc x0) (c_view x0) (c_idx x0) (initial_handler (c_idx x0))
+               (Some (Sub Open (if N.eqb (c_idx x0) 0 then sn_items sn else INstf :: sn_items sn) (sn_off sn) (tb_id tb) 0))
+               (c_epoch x0)).
+Proof.
+  intros Hoff Hit Hso (Hi & Hep & Hz & Hs & Hk & _).
+  unfold cinv, knows. cbn [c_idx c_epoch c_view c_h c_sub c_ts s_status].
+  split; [exact Hi|]. split; [exact Hep|]. split; [exact Hz|]. split.
+  { unfold initial_handler. destruct (N.eqb (c_idx x0) 0) eqn:E; [|intros ? H; discriminate].
+    intros _ _. apply N.eqb_eq, E. }
+  split; [exact Hk|]. split; [exists tb; cbn [s_off s_buf]; auto|]. right. cbn [s_snap]. split; [reflexivity|].
+  exists [], body, A, B2, D, s. cbn [c_h s_pre s_off c_ts]. split; [|exact Hso].
+  unfold initial_handler. destruct (N.eqb (c_idx x0) 0); rewrite Hit; [left|right]; auto.
+Qed.
+
+(* eventSnapshot.appendAndSplice on the store as it is now *)
+Lemma build_snapok st T qidx pub X tb :
+  ginv st -> st_log st = pub ++ live_queue st -> proj T pub = X ++ tb_items tb ->
+  Forall (fun b => touches T b = true -> b_idx b <= qidx) (st_log st) -> qidx <= st_hi st ->
+  let s := if N.eqb qidx 0 then 1 else qidx in
+  build_snap T (st_store st) qidx (tb_items tb) =
+    Snap T (snap_events T (st_store st) qidx ++ [IEos s]) (List.length (tb_items tb)) /\
+  snapok (hist_of st) T (Some tb) [] (snap_events T (st_store st) qidx) (List.length (tb_items tb))
+         (proj T pub) (proj T (live_queue st)) [] s.
+Proof.
+  intros G Hlog HX Hq Hqhi s. destruct G as [Gnd Gst Ginc Ghi _ _ _ _ _ _].
+  assert (Hqs : qidx <= s) by (unfold s; destruct (N.eqb qidx 0) eqn:E; [apply N.eqb_eq in E|]; lia).
+  assert (Hs1 : 1 <= s <= st_hi st).
+  { unfold s. destruct (N.eqb qidx 0) eqn:E; [lia|]. apply N.eqb_neq in E. lia. }
+  assert (Hle : Forall (fun it => item_idx it <= s) (proj T (st_log st))).
+  { eapply Forall_impl; [|apply proj_le; exact Hq]. cbn. intros; lia. }
+  split.
+  - unfold build_snap. fold s. f_equal. apply splice_len. intros it Hit.
+    rewrite Forall_forall in Hle. apply Hle. rewrite Hlog, proj_app, HX, !in_app_iff. left; right; exact Hit.
+  - destruct (snap_events_spec T (st_store st) qidx) as [Hev Hiev].
+    constructor; cbn [hist_of h_log h_base h_hi h_lq]; auto.
+    + rewrite Hlog, proj_app, app_nil_r. reflexivity.
+    + intros k. cbn [app]. rewrite Hev, aget_apply_rows by exact Gnd.
+      destruct (matches T k) eqn:Ek; [|reflexivity].
+      rewrite (Gst k), (aget_all_evs_proj T) by assumption. rewrite Hlog, proj_app. reflexivity.
+    + unfold tail. cbn [ob_items hist_of h_lq]. rewrite skipn_all, app_nil_r. reflexivity.
+    + rewrite <- proj_app, <- Hlog. exact Hle.
+Qed.
+
+Lemma ginv_sub_core st c x0 qidx :
+  ginv st -> find_client c (st_clients st) = Some x0 -> c_sub x0 = None ->
+  sub_env_ok st (c_ts x0) qidx ->
+  ginv (fst (do_subscribe_core st c x0 qidx)).
+Proof.
+  intros G Ec Es0 Hq. unfold do_subscribe_core.
+  set (T := c_ts x0) in *. set (idx := c_idx x0) in *.
+  assert (Hpath : sub_path st T idx <> PErr ->
+                  sub_path st T idx =
+                  (if negb (N.eqb idx 0) && head_has_index (buf_items T (st_bufs st)) idx then PResume
+                   else match find_snap T (st_cache st) with Some _ => PCache | None => PBuild end) /\
+                  Forall (fun b => touches T b = true -> b_idx b <= qidx) (st_log st) /\ qidx <= st_hi st).
+  { intros Hne. destruct (sub_path_not_err st T idx Hne) as [Hp Hw]. split; [exact Hp|].
+    unfold sub_env_ok in Hq. destruct (snd T); [exact Hq|]. rewrite Hw in Hq by reflexivity. exact Hq. }
+  assert (Hinc : incr (map item_idx (proj T (st_log st)))) by (apply incr_proj, G).
+  destruct (sub_path st T idx) eqn:Ep.
+  - (* unsupported wildcard: only the handler is re-initialised *)
+    cbn [fst]. eapply ginv_put; eauto.
+    + intros T' id. unfold has_sub_on. cbn [c_sub]. rewrite Es0. reflexivity.
+    + cbn [c_sub]. intros sb' H. discriminate.
+    + intros r _ _ (Hi & Hep & Hz & Hs & Hk & _). unfold cinv, knows.
+      cbn [c_idx c_epoch c_view c_h c_sub c_ts]. fold idx.
+      split; [exact Hi|]. split; [exact Hep|]. split; [exact Hz|]. split; [|split; [exact Hk|exact I]].
+      unfold initial_handler. destruct (N.eqb idx 0) eqn:E; [|intros ? H; discriminate].
+      intros _ _. apply N.eqb_eq, E.
+  - (* resume *)
+    destruct Hpath as (Hp & _ & _); [discriminate|].
+    destruct (negb (N.eqb idx 0) && head_has_index (buf_items T (st_bufs st)) idx) eqn:Er;
+      [|destruct (find_snap T (st_cache st)); discriminate].
+    apply andb_true_iff in Er as [Er1 Er2]. apply negb_true_iff, N.eqb_neq in Er1.
+    cbn [fst]. eapply ginv_attach with (x0 := x0); eauto; [reflexivity|reflexivity|].
+    intros pub r Hlog Hr Hall (X & HX) Hc. fold T in HX. split.
+    + eapply (cinv_resume (hist_of st)); eauto; fold T.
+      * intros it Hit. apply proj_item_batch in Hit as (b & Hb & ->).
+        rewrite Forall_forall in Hall. specialize (Hall b Hb). lia.
+      * rewrite attach_items. exact Er2.
+    + intros T' sn Hf. left; exact Hf.
+  - (* cached snapshot *)
+    destruct Hpath as (Hp & _ & _); [discriminate|].
+    destruct (negb (N.eqb idx 0) && head_has_index (buf_items T (st_bufs st)) idx) eqn:Er; [discriminate|].
+    destruct (find_snap T (st_cache st)) as [sn|] eqn:Ef; [|discriminate].
+    cbn [fst]. eapply ginv_attach with (x0 := x0); eauto; [reflexivity|reflexivity|].
+    intros pub r Hlog Hr Hall (X & HX) Hc. fold T in HX. split; [|intros T' sn' Hf; left; exact Hf].
+    destruct G as [_ _ _ _ _ _ _ _ Gc _]. destruct (Gc T sn Ef) as (Hl & body & A & B2 & D & s & Hit & Hso).
+    destruct Hl as (b & Eb & Hoff & _).
+    assert (Hit' : tb_items (attach_buf st T) = tb_items b) by (unfold attach_buf; rewrite Eb; reflexivity).
+    eapply cinv_snapshot; eauto; fold T.
+    * rewrite Hit'. exact Hoff.
+    * eapply (snapok_ext (hist_of st)); [reflexivity|reflexivity|reflexivity| |exact Hso].
+      unfold tail. rewrite Eb. cbn [ob_items]. rewrite Hit'. reflexivity.
+  - (* fresh snapshot *)
+    destruct Hpath as (Hp & Hqle & Hqhi); [discriminate|].
+    destruct (negb (N.eqb idx 0) && head_has_index (buf_items T (st_bufs st)) idx) eqn:Er; [discriminate|].
+    destruct (find_snap T (st_cache st)) as [sn|] eqn:Ef; [discriminate|].
+    cbn [fst]. eapply ginv_attach with (x0 := x0); eauto; [reflexivity|reflexivity|].
+    intros pub r Hlog Hr Hall (X & HX) Hc. fold T in HX.
+    destruct (build_snapok st T qidx pub X (attach_buf st T) G Hlog HX Hqle Hqhi) as [Hb Hso].
+    split.
+    + rewrite Hb. eapply cinv_snapshot; eauto. cbn [sn_items]. reflexivity.
+    + intros T' sn' Hf. rewrite Hb in Hf. destruct (st_cache_on st); [|left; exact Hf].
+      destruct (ts_eqb T' T) eqn:E.
+      * apply ts_eqb_eq in E; subst T'. right. split; [reflexivity|].
+        rewrite (find_put_snap_same (Snap T _ _)) in Hf. injection Hf as <-.
+        split; [exists (attach_buf st T); cbn [sn_off]; auto|]. eexists _, _, _, _, _. split; [reflexivity|exact Hso].
+      * apply ts_eqb_neq in E. left. rewrite find_put_snap_other in Hf by exact E. exact Hf.
+Qed.
+
+Lemma release_hist T id st :
+  hist_of (release T id st) = hist_of st /\ st_clients (release T id st) = st_clients st.
+Proof.
+  unfold release. destruct (find_buf T (st_bufs st)) as [b|]; [|auto].
+  destruct (N.eqb (tb_id b) id); [|auto]. destruct (tb_refs b) as [|[|n]]; auto.
+Qed.
+
+Lemma unsub_hist st c : hist_of (fst (do_unsub st c)) = hist_of st.
+Proof.
+  unfold do_unsub. destruct (find_client c (st_clients st)) as [x|]; [|reflexivity].
+  destruct (c_sub x) as [sb|]; [|reflexivity]. cbn [fst]. destruct (release_hist (c_ts x) (s_buf sb)
+    (with_clients st (put_client c (drop_sub x) (st_clients st)))) as [H _]. rewrite H. reflexivity.
+Qed.
+
+Lemma unsub_client st c x :
+  find_client c (st_clients st) = Some x ->
+  find_client c (st_clients (fst (do_unsub st c))) = Some (drop_sub x).
+Proof.
+  intros Ec. unfold do_unsub. rewrite Ec. destruct (c_sub x) as [sb|] eqn:Es; cbn [fst].
+  - destruct (release_hist (c_ts x) (s_buf sb) (with_clients st (put_client c (drop_sub x) (st_clients st)))) as (_ & H).
+    rewrite H. cbn [with_clients st_clients]. apply find_put_client_same.
+  - rewrite Ec. f_equal. destruct x; cbn in *; subst; reflexivity.
+Qed.
+
+Lemma forallb_touches T q log :
+  forallb (fun b => negb (touches T b) || N.leb (b_idx b) q) log = true ->
+  Forall (fun b => touches T b = true -> b_idx b <= q) log.
+Proof.
+  intros H. rewrite forallb_forall in H. rewrite Forall_forall. intros b Hb Ht.
+  specialize (H b Hb). rewrite Ht in H. cbn in H. apply N.leb_le, H.
+Qed.
+
+Lemma sub_core_clients st c x0 qidx :
+  fst (do_subscribe_core (with_clients st (put_client c x0 (st_clients st))) c x0 qidx)
+  = fst (do_subscribe_core st c x0 qidx).
+Proof.
+  unfold do_subscribe_core, sub_path, attach_buf, next_nbuf.
+  cbn [with_clients st_store st_queue st_bufs st_cache st_clients st_cache_on st_hi st_log st_base st_epoch st_nbuf].
+  destruct (snd (c_ts x0)); [|destruct (wild_ok (fst (c_ts x0))); [|cbn [fst]; rewrite put_put_client; reflexivity]].
+  all: destruct (negb (N.eqb (c_idx x0) 0) && head_has_index (buf_items (c_ts x0) (st_bufs st)) (c_idx x0));
+    [cbn [fst]; rewrite put_put_client; reflexivity|].
+  all: destruct (find_snap (c_ts x0) (st_cache st)); cbn [fst]; rewrite put_put_client; reflexivity.
+Qed.
+
+Lemma ginv_subscribe st c T tok rpc qidx :
+  ginv st -> step_ok st (LSubscribe c T tok rpc qidx) = true ->
+  ginv (fst (do_subscribe st c T tok rpc qidx)).
+Proof.
+  intros G Hok. unfold do_subscribe. cbn [step_ok] in Hok. unfold sub_ts in *.
+  destruct (find_client c (st_clients st)) as [x|] eqn:Ec.
+  - pose proof (ginv_unsub st c G) as G1. pose proof (unsub_hist st c) as Hh.
+    set (st1 := fst (do_unsub st c)) in *.
+    assert (Hlog : st_log st1 = st_log st) by (injection Hh; auto).
+    assert (Hhi : st_hi st1 = st_hi st) by (injection Hh; auto).
+    apply ginv_sub_core; auto.
+    + apply unsub_client, Ec.
+    + unfold sub_env_ok. cbn [drop_sub c_ts]. rewrite Hlog, Hhi.
+      destruct (snd (c_ts x)); [|destruct (wild_ok (fst (c_ts x))); [|exact I]].
+      all: apply andb_true_iff in Hok as [H1 H2]; split; [apply forallb_touches, H1|apply N.leb_le, H2].
+  - set (x0 := Client T tok rpc [] 0 (HSnap []) None (st_epoch st)).
+    rewrite <- (sub_core_clients st c x0 qidx).
+    apply ginv_sub_core.
+    + apply ginv_add_idle; assumption.
+    + cbn [with_clients st_clients]. apply find_put_client_same.
+    + reflexivity.
+    + unfold sub_env_ok. cbn [x0 c_ts with_clients st_log st_hi].
+      destruct (snd T); [|destruct (wild_ok (fst T)); [|exact I]].
+      all: apply andb_true_iff in Hok as [H1 H2]; split; [apply forallb_touches, H1|apply N.leb_le, H2].
+Qed.
+
+Theorem ginv_step st l : ginv st -> step_ok st l = true -> ginv (fst (step st l)).
+Proof.
+  intros G Hok. destruct l as [b| |c T tok rpc qidx|c|c|rows hi|T]; cbn [step fst].
+  - apply ginv_commit; [exact G|exact Hok].
+  - apply ginv_publish, G.
+  - apply ginv_subscribe; assumption.
+  - apply ginv_next, G.
+  - apply ginv_unsub, G.
+  - apply ginv_restore; [exact G|exact Hok].
+  - apply ginv_evict, G.
+Qed.
+
+Theorem ginv_run st ls : ginv st -> valid_from st ls = true -> ginv (run_from st ls).
+Proof.
+  revert st. induction ls as [|l ls IH]; intros st G Hs; [exact G|].
+  cbn [valid_from] in Hs. apply andb_true_iff in Hs as [H1 H2]. cbn [run_from fold_left].
+  apply IH; [|exact H2]. apply ginv_step; assumption.
+Qed.
